@@ -4,14 +4,19 @@ import TwistedModel.Log.Buffer
 /-!
 C57 — log observers receive every event; filters honour the namespace hierarchy.
 
-  * `LogPublisher` (model `Twisted.Log.Publish`): `every_observer_gets_every_event_once_in_order`,
-    `each_registered_observer_exactly_once`, `history_every_event_once_in_order`,
-    `registered_observers_stay_distinct`, `failures_reported_to_others`(`_nested`, `_reentrant`), `broken_eq_raisers`,
-    `error_reporting_terminates`, `publishErrN_fuel_irrelevant`, `live_iteration_counterexample`
+  * `LogPublisher` (model `Twisted.Log.Publish`; observers may return, raise, add/remove observers and
+    PUBLISH further events through the same publisher — re-entrantly, in any order, to any depth):
+    `every_observer_gets_every_event_once_in_order`, `each_registered_observer_exactly_once`,
+    `reentrant_publish_once_in_order`, `reentrant_publish_is_publish`, `nested_reOK`, `publishWith_shape`,
+    `history_every_event_once_in_order`, `registered_observers_stay_distinct`,
+    `failures_reported_to_others`(`_nested`, `_reentrant`), `broken_eq_raisers`,
+    `error_reporting_terminates`, `publishErrN_fuel_irrelevant`, `publishMain_fuel_irrelevant`, `run_fuel_irrelevant`,
+    `overflow_sticky`, `live_iteration_counterexample`
   * `LogLevelFilterPredicate` / `FilteringLogObserver` (model `Twisted.Log.Filter`):
     `levelFor_eq_most_specific_prefix`, `governs_total`, `levelFor_governs`,
     `filter_passes_iff_level_ge_most_specific_prefix`, `filter_drops_events_without_level_or_namespace`
-  * `LimitedHistoryLogObserver` (model `Twisted.Log.Buffer`): `history_replays_last_N_in_order`, …
+  * `LimitedHistoryLogObserver` (model `Twisted.Log.Buffer`): `history_replays_last_N_in_order`,
+    `history_replays_last_N_reentrant`, `history_after_reentrant_replay`, …
 -/
 namespace TwistedProps.C57
 
@@ -88,6 +93,58 @@ theorem history_unbounded_replays_all {α : Type} (es : List α) (h0 : Hist α)
 theorem history_negative_size_refused {α : Type} (n : Int) (h : n < 0) : Hist.new (α := α) (some n) = none := by
   simp [Hist.new, h]
 
+/-! ### the observer replayed to logs to the history observer meanwhile (re-entrancy) -/
+
+theorem observeAll_append {α : Type} (h : Hist α) (a b : List α) :
+    observeAll h (a ++ b) = observeAll (observeAll h a) b := by simp [observeAll]
+
+/-- the loop hands over exactly the copied buffer, whatever the target feeds back -/
+theorem replayLoop_fst {α : Type} (feed : Nat → List α) (snap : List α) (i : Nat) (h : Hist α) :
+    (Hist.replayLoop feed snap i h).1 = snap := by
+  induction snap generalizing i h with
+  | nil => rfl
+  | cons ev rest ih => simp [Hist.replayLoop, ih]
+
+/-- … and everything the target logged is observed, in order (history for the next replay) -/
+theorem replayLoop_snd {α : Type} (feed : Nat → List α) (snap : List α) (i : Nat) (h : Hist α) :
+    (Hist.replayLoop feed snap i h).2 = observeAll h ((List.range' i snap.length).flatMap feed) := by
+  induction snap generalizing i h with
+  | nil => simp [Hist.replayLoop, observeAll]
+  | cons ev rest ih =>
+    simp only [Hist.replayLoop, ih, List.length_cons, List.range'_succ, List.flatMap_cons, observeAll_append]
+    rfl
+
+/-- **Replay is exact under re-entrancy**: a limited-history observer of size `N` replays exactly the last
+    `N` events observed before `replayTo` was called, in order — also when the observer replayed to logs
+    (any number of events, at any of its calls) to the history observer itself while it is replayed to. -/
+theorem history_replays_last_N_reentrant {α : Type} (N : Nat) (es : List α) (h0 : Hist α)
+    (hnew : Hist.new (some (N : Int)) = some h0) (feed : Nat → List α) :
+    ((observeAll h0 es).replayTo feed).1 = es.drop (es.length - N) := by
+  unfold Hist.replayTo
+  rw [replayLoop_fst]
+  exact history_replays_last_N_in_order N es h0 hnew
+
+theorem history_unbounded_replays_all_reentrant {α : Type} (es : List α) (h0 : Hist α)
+    (hnew : Hist.new none = some h0) (feed : Nat → List α) : ((observeAll h0 es).replayTo feed).1 = es := by
+  unfold Hist.replayTo
+  rw [replayLoop_fst]
+  exact history_unbounded_replays_all es h0 hnew
+
+/-- what was logged during the replay is part of the stream afterwards: the state after the replay is the
+    state after observing `es` followed by the events fed at the 0th, 1st, … call of the target -/
+theorem history_after_reentrant_replay {α : Type} (es : List α) (h0 : Hist α) (feed : Nat → List α) :
+    ((observeAll h0 es).replayTo feed).2 =
+      observeAll h0 (es ++ (List.range' 0 (observeAll h0 es).buf.length).flatMap feed) := by
+  unfold Hist.replayTo
+  rw [replayLoop_snd, observeAll_append]
+
+/-- size 2, events 10..13 observed; the target logs 20 at its first call and 21, 22 at its second: it is handed
+    12, 13; the next replay hands over 21, 22 -/
+example : ((observeAll (⟨some 2, []⟩ : Hist Nat) [10, 11, 12, 13]).replayTo
+    (fun i => if i = 0 then [20] else if i = 1 then [21, 22] else [])).1 = [12, 13] := by decide
+example : ((observeAll (⟨some 2, []⟩ : Hist Nat) [10, 11, 12, 13]).replayTo
+    (fun i => if i = 0 then [20] else if i = 1 then [21, 22] else [])).2.replay = [21, 22] := by decide
+
 end Buffer
 
 section Publisher
@@ -98,16 +155,19 @@ open Twisted.Log.Publish
 /-- nesting depth of a failure report -/
 def depth : Ev → Nat
   | .app _ => 0
+  | .sub _ => 0
   | .report _ c => depth c + 1
 
 /-- `below e d`: `d` is a failure report caused (directly or through further failing observers) by `e` -/
 def below (e : Ev) : Ev → Bool
   | .app _ => false
+  | .sub _ => false
   | .report _ c => c == e || below e c
 
 theorem below_depth {e d : Ev} (h : below e d = true) : depth e < depth d := by
   induction d with
   | app k => simp [below] at h
+  | sub k => simp [below] at h
   | report b c ih =>
     simp only [below, Bool.or_eq_true, beq_iff_eq] at h
     rcases h with h | h
@@ -120,6 +180,7 @@ theorem below_ne {e d : Ev} (h : below e d = true) : d ≠ e := by
 theorem below_trans {a b c : Ev} (h1 : below a b = true) (h2 : below b c = true) : below a c = true := by
   induction c with
   | app k => simp [below] at h2
+  | sub k => simp [below] at h2
   | report o c ih =>
     simp only [below, Bool.or_eq_true, beq_iff_eq] at h2 ⊢
     rcases h2 with h | h
@@ -128,44 +189,189 @@ theorem below_trans {a b c : Ev} (h1 : below a b = true) (h2 : below b c = true)
 
 theorem below_report (b : Obs) (e : Ev) : below e (.report b e) = true := by simp [below]
 
-/-- `Ext e s s'`: from `s` to `s'` the trace only grew, by deliveries of reports caused by `e` -/
-def Ext (e : Ev) (s s' : St) : Prop :=
-  ∃ tail, s'.trace = s.trace ++ tail ∧ ∀ d ∈ tail, below e d.2 = true
+/-! ### events of re-entrant publishes -/
 
-theorem Ext.refl (e : Ev) (s : St) : Ext e s s := ⟨[], by simp, by simp⟩
+/-- the event a failure report is ultimately about -/
+def root : Ev → Ev
+  | .report _ c => root c
+  | e => e
 
-theorem Ext.trans {e : Ev} {a b c : St} (h1 : Ext e a b) (h2 : Ext e b c) : Ext e a c := by
-  obtain ⟨t1, e1, p1⟩ := h1
-  obtain ⟨t2, e2, p2⟩ := h2
-  refine ⟨t1 ++ t2, by rw [e2, e1]; simp, ?_⟩
+/-- `later m e`: `e` is — or is a failure report about — an event published by an observer (re-entrantly)
+    as the `m`-th such event or later -/
+def later (m : Nat) (e : Ev) : Bool :=
+  match root e with
+  | .sub j => decide (m ≤ j)
+  | _ => false
+
+theorem later_report (m : Nat) (b : Obs) (c : Ev) : later m (.report b c) = later m c := rfl
+theorem later_app (m k : Nat) : later m (.app k) = false := rfl
+theorem later_sub (m k : Nat) : later m (.sub k) = decide (m ≤ k) := rfl
+
+theorem below_root {e d : Ev} (h : below e d = true) : root d = root e := by
+  induction d with
+  | app k => simp [below] at h
+  | sub k => simp [below] at h
+  | report b c ih =>
+    simp only [below, Bool.or_eq_true, beq_iff_eq] at h
+    rcases h with h | h
+    · subst h; rfl
+    · exact ih h
+
+theorem below_later {e d : Ev} (m : Nat) (h : below e d = true) : later m d = later m e := by
+  unfold later; rw [below_root h]
+
+theorem later_mono {m m' : Nat} (h : m ≤ m') {e : Ev} (hl : later m' e = true) : later m e = true := by
+  unfold later at hl ⊢
+  split at hl
+  · next j hj => simp only [decide_eq_true_eq] at hl ⊢; omega
+  · simp at hl
+
+/-- the part of the trace added between two states -/
+def newOf (s s' : St) : List (Obs × Ev) := s'.trace.drop s.trace.length
+
+theorem newOf_eq {s s' : St} {t : List (Obs × Ev)} (h : s'.trace = s.trace ++ t) : newOf s s' = t := by
+  simp [newOf, h]
+
+/-- `ExtP Q s s'`: from `s` to `s'` the trace only grew, by deliveries of events satisfying `Q`, and the
+    counter of re-entrantly published events did not go back -/
+def ExtP (Q : Ev → Prop) (s s' : St) : Prop :=
+  s.next ≤ s'.next ∧ ∃ tail, s'.trace = s.trace ++ tail ∧ ∀ d ∈ tail, Q d.2
+
+theorem ExtP.refl (Q : Ev → Prop) (s : St) : ExtP Q s s := ⟨Nat.le_refl _, [], by simp, by simp⟩
+
+theorem ExtP.trans {Q : Ev → Prop} {a b c : St} (h1 : ExtP Q a b) (h2 : ExtP Q b c) : ExtP Q a c := by
+  obtain ⟨n1, t1, e1, p1⟩ := h1
+  obtain ⟨n2, t2, e2, p2⟩ := h2
+  refine ⟨Nat.le_trans n1 n2, t1 ++ t2, by rw [e2, e1]; simp, ?_⟩
   intro d hd
   rcases List.mem_append.mp hd with h | h
   · exact p1 d h
   · exact p2 d h
 
-theorem Ext.weaken {e e' : Ev} {a b : St} (hb : below e e' = true) (h : Ext e' a b) : Ext e a b := by
-  obtain ⟨t, e1, p⟩ := h
-  exact ⟨t, e1, fun d hd => below_trans hb (p d hd)⟩
+theorem ExtP.mono {Q Q' : Ev → Prop} {a b : St} (hq : ∀ d, Q d → Q' d) (h : ExtP Q a b) : ExtP Q' a b := by
+  obtain ⟨n1, t, e1, p⟩ := h
+  exact ⟨n1, t, e1, fun d hd => hq _ (p d hd)⟩
 
-theorem foldl_Ext {e : Ev} (f : St → Obs → St) (l : List Obs) (s : St)
-    (h : ∀ s, ∀ b ∈ l, Ext e s (f s b)) : Ext e s (l.foldl f s) := by
+theorem foldl_ExtP {Q : Ev → Prop} {α : Type} (m : Nat) (f : St → α → St) (l : List α) (s : St)
+    (h : ∀ s, m ≤ s.next → ∀ b ∈ l, ExtP Q s (f s b)) (hm : m ≤ s.next) : ExtP Q s (l.foldl f s) := by
   induction l generalizing s with
-  | nil => exact Ext.refl e s
+  | nil => exact ExtP.refl Q s
   | cons b bs ih =>
     simp only [List.foldl_cons]
-    exact Ext.trans (h s b (by simp)) (ih _ (fun s b' hb' => h s b' (by simp [hb'])))
+    have h1 := h s hm b (by simp)
+    exact ExtP.trans h1 (ih _ (fun s hs b' hb' => h s hs b' (by simp [hb'])) (Nat.le_trans hm h1.1))
 
-theorem callObs_trace (beh : Beh) (o : Obs) (e : Ev) (s : St) :
-    (callObs beh o e s).1.trace = s.trace ++ [(o, e)] := rfl
+/-- only events of re-entrant publishes number `m` and later (and failure reports about them) -/
+def Late (m : Nat) (d : Ev) : Prop := later m d = true
+/-- failure reports caused by `e`, or events of re-entrant publishes number `m` and later -/
+def Side (m : Nat) (e : Ev) (d : Ev) : Prop := below e d = true ∨ later m d = true
 
-theorem deliverAll_trace (beh : Beh) (e : Ev) (os : List Obs) (s : St) :
-    (deliverAll beh e os s).1.trace = s.trace ++ os.map (fun o => (o, e)) := by
+/-- `Ext m e s s'`: the trace grew by failure reports caused by `e` and by whatever re-entrant publishes
+    (of events number `m` and later) delivered -/
+abbrev Ext (m : Nat) (e : Ev) (s s' : St) : Prop := ExtP (Side m e) s s'
+
+theorem Ext.weaken {m : Nat} {e e' : Ev} {a b : St} (hb : below e e' = true) (h : Ext m e' a b) : Ext m e a b :=
+  ExtP.mono (fun _ hd => hd.elim (fun h1 => Or.inl (below_trans hb h1)) Or.inr) h
+
+/-- **What an observer's re-entrant `publisher(event)` is assumed to do** (and `nested` is proved to do,
+    `nested_reOK`): called with the freshly numbered event `sub k`, it only appends deliveries of events
+    number `k` and later (and failure reports about them) and does not decrease the counter. -/
+def ReOK (pub : Reenter) : Prop := ∀ k s, k < s.next → ExtP (Late k) s (pub (.sub k) s)
+
+theorem runCmd_ExtP (pub : Reenter) (hp : ReOK pub) (m : Nat) (s : St) (c : Cmd) (hm : m ≤ s.next) :
+    ExtP (Late m) s (runCmd pub s c) := by
+  cases c with
+  | remove o => exact ⟨Nat.le_refl _, [], by simp [runCmd], by simp⟩
+  | add o => exact ⟨Nat.le_refl _, [], by simp [runCmd], by simp⟩
+  | publish =>
+    simp only [runCmd]
+    obtain ⟨hn, t, ht, hq⟩ := hp s.next { s with next := s.next + 1 } (Nat.lt_succ_self _)
+    exact ⟨by simp at hn; omega, t, ht, fun d hd => later_mono hm (hq d hd)⟩
+
+theorem runCmds_ExtP (pub : Reenter) (hp : ReOK pub) (m : Nat) (cmds : List Cmd) (s : St) (hm : m ≤ s.next) :
+    ExtP (Late m) s (cmds.foldl (runCmd pub) s) :=
+  foldl_ExtP m _ _ s (fun s hs c _ => runCmd_ExtP pub hp m s c hs) hm
+
+/-- one observer call: the delivery itself, then only deliveries made by its re-entrant publishes -/
+theorem callObs_shape (pub : Reenter) (hp : ReOK pub) (beh : Beh) (m : Nat) (o : Obs) (e : Ev) (s : St)
+    (hm : m ≤ s.next) :
+    s.next ≤ (callObs pub beh o e s).1.next ∧
+    ∃ t, (callObs pub beh o e s).1.trace = s.trace ++ (o, e) :: t ∧ ∀ d ∈ t, later m d.2 = true := by
+  simp only [callObs]
+  obtain ⟨hn, t, ht, hq⟩ := runCmds_ExtP pub hp m (beh o (calls o s.trace) e).cmds
+    { s with trace := s.trace ++ [(o, e)] } hm
+  exact ⟨hn, t, by rw [ht]; simp, hq⟩
+
+/-- the deliveries visible at level `m`: everything except what re-entrant publishes number `m` and later delivered -/
+def vis (m : Nat) (t : List (Obs × Ev)) : List (Obs × Ev) := t.filter (fun d => !later m d.2)
+
+theorem vis_append (m : Nat) (a b : List (Obs × Ev)) : vis m (a ++ b) = vis m a ++ vis m b := by simp [vis]
+
+theorem vis_late (m : Nat) (t : List (Obs × Ev)) (h : ∀ d ∈ t, later m d.2 = true) : vis m t = [] := by
+  simp only [vis, List.filter_eq_nil_iff]
+  intro d hd; simp [h d hd]
+
+theorem vis_keep (m : Nat) (t : List (Obs × Ev)) (h : ∀ d ∈ t, later m d.2 = false) : vis m t = t := by
+  simp only [vis, List.filter_eq_self]
+  intro d hd; simp [h d hd]
+
+/-- `Shape m e os s s'`: a publisher with observers `os` was called with `e`: apart from what re-entrant
+    publishes (number `m` and later) delivered, the trace grew by `e` to every observer of `os` in order,
+    then only by failure reports caused by `e` -/
+def Shape (m : Nat) (e : Ev) (os : List Obs) (s s' : St) : Prop :=
+  s.next ≤ s'.next ∧ ∃ T, s'.trace = s.trace ++ T ∧
+    ∃ tail, vis m T = os.map (fun o => (o, e)) ++ tail ∧ ∀ d ∈ tail, below e d.2 = true
+
+theorem Shape.ext {m : Nat} {e : Ev} {os : List Obs} {a b c : St} (h1 : Shape m e os a b) (h2 : Ext m e b c) :
+    Shape m e os a c := by
+  obtain ⟨n1, T, hT, tail, hv, hb⟩ := h1
+  obtain ⟨n2, t2, ht2, hs⟩ := h2
+  refine ⟨Nat.le_trans n1 n2, T ++ t2, by rw [ht2, hT]; simp, tail ++ vis m t2, by rw [vis_append, hv]; simp, ?_⟩
+  intro d hd
+  rcases List.mem_append.mp hd with h | h
+  · exact hb d h
+  · have hmem := List.mem_filter.mp h
+    rcases hs d hmem.1 with h3 | h3
+    · exact h3
+    · simp [h3] at hmem
+
+/-- a publish of a failure report about `e`, seen from the publish of `e` -/
+theorem Shape.toExt {m : Nat} {e : Ev} {b : Obs} {F : List Obs} {s s' : St} (h : Shape m (.report b e) F s s') :
+    Ext m e s s' := by
+  obtain ⟨n1, T, hT, tail, hv, hb⟩ := h
+  refine ⟨n1, T, hT, ?_⟩
+  intro d hd
+  cases hl : later m d.2 with
+  | true => exact Or.inr hl
+  | false =>
+    left
+    have : d ∈ vis m T := List.mem_filter.mpr ⟨hd, by simp [hl]⟩
+    rw [hv] at this
+    rcases List.mem_append.mp this with h1 | h1
+    · obtain ⟨o, _, rfl⟩ := List.mem_map.mp h1
+      exact below_report b e
+    · exact below_trans (below_report b e) (hb d h1)
+
+theorem deliverAll_shape (pub : Reenter) (hp : ReOK pub) (beh : Beh) (m : Nat) (e : Ev) (hf : later m e = false)
+    (os : List Obs) (s : St) (hm : m ≤ s.next) :
+    s.next ≤ (deliverAll pub beh e os s).1.next ∧
+    ∃ T, (deliverAll pub beh e os s).1.trace = s.trace ++ T ∧ vis m T = os.map (fun o => (o, e)) := by
   induction os generalizing s with
-  | nil => simp [deliverAll]
-  | cons o os ih => simp [deliverAll, ih, callObs_trace]
+  | nil => exact ⟨Nat.le_refl _, [], by simp [deliverAll], rfl⟩
+  | cons o os ih =>
+    simp only [deliverAll]
+    obtain ⟨n1, t, ht, hq⟩ := callObs_shape pub hp beh m o e s hm
+    obtain ⟨n2, T, hT, hv⟩ := ih (callObs pub beh o e s).1 (Nat.le_trans hm n1)
+    refine ⟨Nat.le_trans n1 n2, (o, e) :: t ++ T, by rw [hT, ht]; simp, ?_⟩
+    rw [vis_append, hv]
+    have : vis m ((o, e) :: t) = [(o, e)] := by
+      have := vis_late m t hq
+      simp only [vis] at this ⊢
+      simp [hf, this]
+    rw [this]; rfl
 
-theorem deliverAll_broken_sublist (beh : Beh) (e : Ev) (os : List Obs) (s : St) :
-    (deliverAll beh e os s).2.Sublist os := by
+theorem deliverAll_broken_sublist (pub : Reenter) (beh : Beh) (e : Ev) (os : List Obs) (s : St) :
+    (deliverAll pub beh e os s).2.Sublist os := by
   induction os generalizing s with
   | nil => simp [deliverAll]
   | cons o os ih =>
@@ -174,9 +380,9 @@ theorem deliverAll_broken_sublist (beh : Beh) (e : Ev) (os : List Obs) (s : St) 
     · exact (ih _).cons_cons o
     · exact (ih _).cons o
 
-theorem deliverAll_broken_mem (beh : Beh) (e : Ev) (os : List Obs) (s : St) (b : Obs)
-    (h : b ∈ (deliverAll beh e os s).2) : b ∈ os :=
-  (deliverAll_broken_sublist beh e os s).subset h
+theorem deliverAll_broken_mem (pub : Reenter) (beh : Beh) (e : Ev) (os : List Obs) (s : St) (b : Obs)
+    (h : b ∈ (deliverAll pub beh e os s).2) : b ∈ os :=
+  (deliverAll_broken_sublist pub beh e os s).subset h
 
 theorem filter_ne_length_lt (obs : List Obs) (b : Obs) (h : b ∈ obs) :
     (obs.filter (· != b)).length < obs.length := by
@@ -195,67 +401,78 @@ theorem filter_ne_length_lt (obs : List Obs) (b : Obs) (h : b ∈ obs) :
       have := ih hm
       simp [hob]; omega
 
-theorem publishErrN_succ (beh : Beh) (n : Nat) (obs : List Obs) (e : Ev) (s : St) :
-    publishErrN beh (n + 1) obs e s =
-      (deliverAll beh e obs s).2.foldl
-        (fun s b => publishErrN beh n (obs.filter (· != b)) (.report b e) s) (deliverAll beh e obs s).1 := rfl
+theorem publishErrN_succ (pub : Reenter) (beh : Beh) (n : Nat) (obs : List Obs) (e : Ev) (s : St) :
+    publishErrN pub beh (n + 1) obs e s =
+      (deliverAll pub beh e obs s).2.foldl
+        (fun s b => publishErrN pub beh n (obs.filter (· != b)) (.report b e) s) (deliverAll pub beh e obs s).1 := rfl
 
-/-- what a publisher with observers `obs` appends to the trace: first `e` to every observer in
-    order, then only failure reports caused by `e` -/
-theorem publishErrN_shape (beh : Beh) (n : Nat) : ∀ (obs : List Obs) (e : Ev) (s : St), obs.length ≤ n →
-    ∃ tail, (publishErrN beh n obs e s).trace = s.trace ++ obs.map (fun o => (o, e)) ++ tail ∧
-      ∀ d ∈ tail, below e d.2 = true := by
+/-- what a publisher with observers `obs` appends to the trace (apart from the deliveries of re-entrant
+    publishes): first `e` to every observer in order, then only failure reports caused by `e` -/
+theorem publishErrN_shape (pub : Reenter) (hp : ReOK pub) (beh : Beh) (m : Nat) (n : Nat) :
+    ∀ (obs : List Obs) (e : Ev) (s : St), later m e = false → m ≤ s.next → obs.length ≤ n →
+    Shape m e obs s (publishErrN pub beh n obs e s) := by
   induction n with
   | zero =>
-    intro obs e s h
+    intro obs e s _ _ h
     have : obs = [] := List.length_eq_zero_iff.mp (by omega)
     subst this
-    exact ⟨[], by simp [publishErrN], by simp⟩
+    exact ⟨Nat.le_refl _, [], by simp [publishErrN], [], by simp [vis], by simp⟩
   | succ n ih =>
-    intro obs e s h
+    intro obs e s hf hm h
     rw [publishErrN_succ]
-    have hfold : Ext e (deliverAll beh e obs s).1
-        ((deliverAll beh e obs s).2.foldl
-          (fun s b => publishErrN beh n (obs.filter (· != b)) (.report b e) s) (deliverAll beh e obs s).1) := by
-      apply foldl_Ext
-      intro s' b hb
-      have hmem := deliverAll_broken_mem beh e obs s b hb
+    obtain ⟨n1, T, hT, hv⟩ := deliverAll_shape pub hp beh m e hf obs s hm
+    have hfold : Ext m e (deliverAll pub beh e obs s).1
+        ((deliverAll pub beh e obs s).2.foldl
+          (fun s b => publishErrN pub beh n (obs.filter (· != b)) (.report b e) s) (deliverAll pub beh e obs s).1) := by
+      apply foldl_ExtP m _ _ _ _ (Nat.le_trans hm n1)
+      intro s' hs' b hb
+      have hmem := deliverAll_broken_mem pub beh e obs s b hb
       have hl := filter_ne_length_lt obs b hmem
-      obtain ⟨t, ht, hp⟩ := ih (obs.filter (· != b)) (.report b e) s' (by omega)
-      refine ⟨(obs.filter (· != b)).map (fun o => (o, Ev.report b e)) ++ t, by rw [ht]; simp, ?_⟩
-      intro d hd
-      rcases List.mem_append.mp hd with h1 | h1
+      exact (ih (obs.filter (· != b)) (.report b e) s' hf hs' (by omega)).toExt
+    exact Shape.ext ⟨n1, T, hT, [], by simp [hv], by simp⟩ hfold
+
+theorem publishErr_shape (pub : Reenter) (hp : ReOK pub) (beh : Beh) (m : Nat) (obs : List Obs) (e : Ev) (s : St)
+    (hf : later m e = false) (hm : m ≤ s.next) : Shape m e obs s (publishErr pub beh obs e s) :=
+  publishErrN_shape pub hp beh m obs.length obs e s hf hm (Nat.le_refl _)
+
+theorem publishErr_Ext (pub : Reenter) (hp : ReOK pub) (beh : Beh) (m : Nat) (obs : List Obs) (b : Obs) (e : Ev) (s : St)
+    (hf : later m e = false) (hm : m ≤ s.next) : Ext m e s (publishErr pub beh obs (.report b e) s) :=
+  (publishErr_shape pub hp beh m obs (.report b e) s hf hm).toExt
+
+/-- one call of the publisher under test with `e`, observers free to re-enter it (add, remove, publish):
+    apart from what the re-entrant publishes delivered, `e` goes to every registered observer in order,
+    then only failure reports caused by `e` follow -/
+theorem publishWith_shape (pub : Reenter) (hp : ReOK pub) (beh : Beh) (m : Nat) (e : Ev) (s : St)
+    (hf : later m e = false) (hm : m ≤ s.next) : Shape m e s.main s (publishWith pub beh e s) := by
+  unfold publishWith reportMain
+  obtain ⟨n1, T, hT, hv⟩ := deliverAll_shape pub hp beh m e hf s.main s hm
+  have hfold := foldl_ExtP (Q := Side m e) m
+    (fun s b => publishErr pub beh (s.main.filter (· != b)) (.report b e) s)
+    (deliverAll pub beh e s.main s).2 (deliverAll pub beh e s.main s).1
+    (fun s' hs' b _ => publishErr_Ext pub hp beh m _ b e s' hf hs') (Nat.le_trans hm n1)
+  exact Shape.ext ⟨n1, T, hT, [], by simp [hv], by simp⟩ hfold
+
+/-- `nested beh n` — the model's re-entrant `publisher(event)`, any depth — meets `ReOK` -/
+theorem nested_reOK (beh : Beh) (n : Nat) : ReOK (nested beh n) := by
+  induction n with
+  | zero => intro k s _; exact ⟨Nat.le_refl _, [], by simp [nested], by simp⟩
+  | succ n ih =>
+    intro k s hk
+    have hf : later s.next (.sub k) = false := by simp [later_sub]; omega
+    obtain ⟨n1, T, hT, tail, hv, hb⟩ := publishWith_shape (nested beh n) ih beh s.next (.sub k) s hf (Nat.le_refl _)
+    refine ⟨n1, T, hT, ?_⟩
+    intro d hd
+    cases hl : later s.next d.2 with
+    | true => exact later_mono (Nat.le_of_lt hk) hl
+    | false =>
+      have : d ∈ vis s.next T := List.mem_filter.mpr ⟨hd, by simp [hl]⟩
+      rw [hv] at this
+      rcases List.mem_append.mp this with h1 | h1
       · obtain ⟨o, _, rfl⟩ := List.mem_map.mp h1
-        exact below_report b e
-      · exact below_trans (below_report b e) (hp d h1)
-    obtain ⟨t, ht, hp⟩ := hfold
-    exact ⟨t, by rw [ht, deliverAll_trace], hp⟩
+        simp [Late, later_sub]
+      · show later k d.2 = true
+        rw [below_later k (hb d h1)]; simp [later_sub]
 
-theorem publishErr_shape (beh : Beh) (obs : List Obs) (e : Ev) (s : St) :
-    ∃ tail, (publishErr beh obs e s).trace = s.trace ++ obs.map (fun o => (o, e)) ++ tail ∧
-      ∀ d ∈ tail, below e d.2 = true :=
-  publishErrN_shape beh obs.length obs e s (Nat.le_refl _)
-
-theorem publishErr_Ext (beh : Beh) (obs : List Obs) (b : Obs) (e : Ev) (s : St) :
-    Ext e s (publishErr beh obs (.report b e) s) := by
-  obtain ⟨t, ht, hp⟩ := publishErr_shape beh obs (.report b e) s
-  refine ⟨obs.map (fun o => (o, Ev.report b e)) ++ t, by rw [ht]; simp, ?_⟩
-  intro d hd
-  rcases List.mem_append.mp hd with h1 | h1
-  · obtain ⟨o, _, rfl⟩ := List.mem_map.mp h1
-    exact below_report b e
-  · exact below_trans (below_report b e) (hp d h1)
-
-theorem publishMain_shape (beh : Beh) (e : Ev) (s : St) :
-    ∃ tail, (publishMain beh e s).trace = s.trace ++ s.main.map (fun o => (o, e)) ++ tail ∧
-      ∀ d ∈ tail, below e d.2 = true := by
-  unfold publishMain reportMain
-  have hfold := foldl_Ext (e := e)
-    (fun s b => publishErr beh (s.main.filter (· != b)) (.report b e) s)
-    (deliverAll beh e s.main s).2 (deliverAll beh e s.main s).1
-    (fun s' b _ => publishErr_Ext beh _ b e s')
-  obtain ⟨t, ht, hp⟩ := hfold
-  exact ⟨t, by rw [ht, deliverAll_trace], hp⟩
 
 /-- the observers to which event `e` was delivered, in delivery order, in a piece of trace -/
 def recipients (e : Ev) (tr : List (Obs × Ev)) : List Obs := (tr.filter (fun d => d.2 == e)).map (·.1)
@@ -272,31 +489,71 @@ theorem recipients_none (e : Ev) (tr : List (Obs × Ev)) (h : ∀ d ∈ tr, d.2 
   simp only [recipients, List.map_eq_nil_iff, List.filter_eq_nil_iff]
   intro d hd; simpa using h d hd
 
-/-- **Every observer gets every event exactly once, in registration order, whatever the observers do**
-    (return, raise, add/remove observers — including themselves — while being called): during one call
-    of the publisher with event `e`, the sequence of observers `e` is handed to is exactly the list of
-    observers registered when the call started. -/
-theorem every_observer_gets_every_event_once_in_order (beh : Beh) (e : Ev) (s : St) :
-    recipients e ((publishMain beh e s).trace.drop s.trace.length) = s.main := by
-  obtain ⟨t, ht, hp⟩ := publishMain_shape beh e s
-  rw [ht, List.append_assoc, List.drop_left, recipients_append, recipients_map_self,
-    recipients_none e t (fun d hd => below_ne (hp d hd))]
+/-- deliveries of an event that no pending re-entrant publish can carry are all visible -/
+theorem recipients_vis (m : Nat) (e : Ev) (t : List (Obs × Ev)) (hf : later m e = false) :
+    recipients e t = recipients e (vis m t) := by
+  simp only [recipients, vis, List.filter_filter]
+  congr 1
+  apply List.filter_congr
+  intro d _
+  by_cases h : d.2 = e
+  · simp [h, hf]
+  · simp [h]
+
+theorem recipients_split (x : Ev) {s s1 s2 : St} {T t : List (Obs × Ev)} (h1 : s1.trace = s.trace ++ T)
+    (h2 : s2.trace = s1.trace ++ t) :
+    recipients x (newOf s s2) = recipients x T ++ recipients x (newOf s1 s2) := by
+  rw [newOf_eq h2, ← recipients_append]
+  congr 1
+  apply newOf_eq
+  rw [h2, h1, List.append_assoc]
+
+/-- `Fresh e s`: `e` is not (a failure report about) an event that an observer has yet to publish — true of
+    every application event, and of every event that was published by an observer before state `s` -/
+abbrev Fresh (e : Ev) (s : St) : Prop := later s.next e = false
+
+theorem fresh_app (k : Nat) (s : St) : Fresh (.app k) s := rfl
+theorem fresh_sub (k : Nat) (s : St) (h : k < s.next) : Fresh (.sub k) s := by
+  show later s.next (.sub k) = false
+  rw [later_sub]; exact decide_eq_false (by omega)
+
+/-- the main theorem for any re-entrancy handler that meets `ReOK` -/
+theorem publishWith_once_in_order (pub : Reenter) (hp : ReOK pub) (beh : Beh) (e : Ev) (s : St) (hf : Fresh e s) :
+    recipients e (newOf s (publishWith pub beh e s)) = s.main := by
+  obtain ⟨_, T, hT, tail, hv, hb⟩ := publishWith_shape pub hp beh s.next e s hf (Nat.le_refl _)
+  rw [newOf_eq hT, recipients_vis s.next e T hf, hv, recipients_append, recipients_map_self,
+    recipients_none e tail (fun d hd => below_ne (hb d hd))]
   simp
 
+/-- **Every observer gets every event exactly once, in registration order, whatever the observers do**
+    (return, raise, add/remove observers — including themselves —, and publish further events through the
+    same publisher, in any order and to any depth, while being called): during one call of the publisher
+    with event `e`, the sequence of observers `e` is handed to is exactly the list of observers registered
+    when the call started. -/
+theorem every_observer_gets_every_event_once_in_order (beh : Beh) (fuel : Nat) (e : Ev) (s : St) (hf : Fresh e s) :
+    recipients e ((publishMain beh fuel e s).trace.drop s.trace.length) = s.main :=
+  publishWith_once_in_order (nested beh fuel) (nested_reOK beh fuel) beh e s hf
 
 /-- with distinct registered observers: each of them receives `e` exactly once, nobody else does -/
-theorem each_registered_observer_exactly_once (beh : Beh) (e : Ev) (s : St) (hnd : s.main.Nodup) (o : Obs) :
-    (recipients e ((publishMain beh e s).trace.drop s.trace.length)).count o = if o ∈ s.main then 1 else 0 := by
-  rw [every_observer_gets_every_event_once_in_order]
+theorem each_registered_observer_exactly_once (beh : Beh) (fuel : Nat) (e : Ev) (s : St) (hf : Fresh e s)
+    (hnd : s.main.Nodup) (o : Obs) :
+    (recipients e ((publishMain beh fuel e s).trace.drop s.trace.length)).count o = if o ∈ s.main then 1 else 0 := by
+  rw [every_observer_gets_every_event_once_in_order beh fuel e s hf]
   exact hnd.count
 
+/-- the model's re-entrant `publisher(event)` IS a call of the publisher under test (one level less fuel) -/
+theorem reentrant_publish_is_publish (beh : Beh) (n : Nat) : nested beh (n + 1) = publishMain beh n := rfl
+
+/-- **Re-entrant publishes deliver exactly once, in order, too**: when an observer — in the middle of any
+    delivery, at any depth — publishes a new event through the publisher, that event goes exactly to the
+    observers registered at that moment, once each, in registration order. -/
+theorem reentrant_publish_once_in_order (beh : Beh) (n : Nat) (s : St) :
+    recipients (.sub s.next) (newOf s (runCmd (nested beh (n + 1)) s .publish)) = s.main := by
+  have := publishWith_once_in_order (nested beh n) (nested_reOK beh n) beh (.sub s.next)
+    { s with next := s.next + 1 } (fresh_sub _ _ (Nat.lt_succ_self _))
+  exact this
+
 /-! ### failure reports -/
-
-/-- the part of the trace added between two states -/
-def newOf (s s' : St) : List (Obs × Ev) := s'.trace.drop s.trace.length
-
-theorem newOf_eq {s s' : St} {t : List (Obs × Ev)} (h : s'.trace = s.trace ++ t) : newOf s s' = t := by
-  simp [newOf, h]
 
 theorem recipients_report_other {b b' : Obs} {e : Ev} (F : List Obs) (t : List (Obs × Ev)) (hne : b' ≠ b)
     (ht : ∀ d ∈ t, below (.report b' e) d.2 = true) :
@@ -317,46 +574,83 @@ theorem recipients_report_same {b : Obs} {e : Ev} (F : List Obs) (t : List (Obs 
   rw [recipients_append, recipients_map_self, recipients_none _ t (fun d hd => below_ne (ht d hd))]
   simp
 
-/-- the second loop of `__call__`, abstractly: a fold over the broken observers `bs` in which the step
-    for `b` hands `report b e` to the observers `L b` in order and otherwise only delivers reports caused
-    by it.  Then `report b e` is received, in order, by exactly `L b`. -/
-theorem fold_reports (e : Ev) (f : St → Obs → St) (L : Obs → List Obs) (I : St → Prop) (bs : List Obs)
-    (hstep : ∀ s, ∀ b ∈ bs, I s → I (f s b) ∧ ∃ t, (f s b).trace = s.trace ++ (L b).map (fun o => (o, Ev.report b e)) ++ t ∧
-      ∀ d ∈ t, below (.report b e) d.2 = true)
-    (hnd : bs.Nodup) (s : St) (hI : I s) (b : Obs) :
-    I (bs.foldl f s) ∧ (∃ t, (bs.foldl f s).trace = s.trace ++ t) ∧
-      recipients (.report b e) (newOf s (bs.foldl f s)) = if b ∈ bs then L b else [] := by
+/-- who receives `report b e` during a publish of `report b' e` to the observers `F` -/
+theorem Shape.recipients_report {m : Nat} {e : Ev} {b b' : Obs} {F : List Obs} {s s' : St} (hf : later m e = false)
+    (h : Shape m (.report b' e) F s s') :
+    recipients (.report b e) (newOf s s') = if b' = b then F else [] := by
+  obtain ⟨_, T, hT, tail, hv, hb⟩ := h
+  rw [newOf_eq hT, recipients_vis m _ T (by rw [later_report]; exact hf), hv]
+  split
+  · next h => subst h; exact recipients_report_same F tail hb
+  · next h => exact recipients_report_other F tail h hb
+
+/-- nobody receives `report b e` while `e` itself is being handed round -/
+theorem recipients_report_deliveries (m : Nat) (e : Ev) (b : Obs) (hf : later m e = false) (os : List Obs)
+    (T : List (Obs × Ev)) (hv : vis m T = os.map (fun o => (o, e))) : recipients (.report b e) T = [] := by
+  rw [recipients_vis m _ T (by rw [later_report]; exact hf), hv]
+  apply recipients_none
+  intro d hd
+  obtain ⟨o, _, rfl⟩ := List.mem_map.mp hd
+  intro h
+  have : depth e = depth (Ev.report b e) := by simp at h; rw [← h]
+  simp [depth] at this
+
+/-- the second loop of `__call__`, abstractly: a fold over the broken observers `bs` in which the step for
+    `b`, from state `s`, is a publish of `report b e` to the observers `L s b`.  Then `report b e` is
+    received, in order, by exactly `L sb b`, `sb` being the state in which that step started. -/
+theorem fold_reports_general (m : Nat) (e : Ev) (hf : later m e = false) (f : St → Obs → St)
+    (L : St → Obs → List Obs) (I : St → Prop) (bs : List Obs)
+    (hstep : ∀ s, m ≤ s.next → ∀ b ∈ bs, I s → I (f s b) ∧ Shape m (.report b e) (L s b) s (f s b))
+    (hnd : bs.Nodup) (s : St) (hm : m ≤ s.next) (hI : I s) (b : Obs) :
+    I (bs.foldl f s) ∧ (s.next ≤ (bs.foldl f s).next ∧ ∃ t, (bs.foldl f s).trace = s.trace ++ t) ∧
+      (if b ∈ bs then ∃ sb, I sb ∧ recipients (.report b e) (newOf s (bs.foldl f s)) = L sb b
+       else recipients (.report b e) (newOf s (bs.foldl f s)) = []) := by
   induction bs generalizing s with
   | nil => simp [newOf, recipients]; exact hI
   | cons b' bs ih =>
     simp only [List.foldl_cons]
-    obtain ⟨hI', t1, ht1, hp1⟩ := hstep s b' (by simp) hI
+    obtain ⟨hI', hsh⟩ := hstep s hm b' (by simp) hI
+    have hrep := Shape.recipients_report (b := b) hf hsh
+    obtain ⟨n1, T1, hT1, -⟩ := hsh
     have hnd' : bs.Nodup := (List.nodup_cons.mp hnd).2
     have hb'bs : b' ∉ bs := (List.nodup_cons.mp hnd).1
-    obtain ⟨hI2, ⟨t2, ht2⟩, hrec⟩ := ih (fun s b hb => hstep s b (by simp [hb])) hnd' (f s b') hI'
-    refine ⟨hI2, ⟨_, by rw [ht2, ht1, List.append_assoc, List.append_assoc]⟩, ?_⟩
-    have hnew : newOf s (bs.foldl f (f s b')) =
-        ((L b').map (fun o => (o, Ev.report b' e)) ++ t1) ++ newOf (f s b') (bs.foldl f (f s b')) := by
-      rw [newOf_eq ht2]
-      apply newOf_eq
-      rw [ht2, ht1]
-      simp [List.append_assoc]
-    rw [hnew, recipients_append, hrec]
+    obtain ⟨hI2, ⟨n2, t2, ht2⟩, hrec⟩ :=
+      ih (fun s hs b hb => hstep s hs b (by simp [hb])) hnd' (f s b') (Nat.le_trans hm n1) hI'
+    refine ⟨hI2, ⟨Nat.le_trans n1 n2, T1 ++ t2, by rw [ht2, hT1, List.append_assoc]⟩, ?_⟩
+    rw [newOf_eq hT1] at hrep
+    rw [recipients_split _ hT1 ht2, hrep]
     by_cases hbb : b' = b
     · subst hbb
-      rw [recipients_report_same _ _ hp1]
-      simp [hb'bs]
-    · rw [recipients_report_other _ _ hbb hp1]
-      have : (b ∈ b' :: bs) ↔ b ∈ bs := by simp [Ne.symm hbb]
-      simp [this]
+      simp only [hb'bs, if_false] at hrec
+      rw [hrec]
+      simp only [List.mem_cons, true_or, if_true, List.append_nil]
+      exact ⟨s, hI, rfl⟩
+    · have : (b ∈ b' :: bs) ↔ b ∈ bs := by simp [Ne.symm hbb]
+      simp only [this, hbb, if_false, List.nil_append]
+      exact hrec
+
+/-- `fold_reports_general` when the recipients do not depend on the state -/
+theorem fold_reports (m : Nat) (e : Ev) (hf : later m e = false) (f : St → Obs → St) (L : Obs → List Obs)
+    (I : St → Prop) (bs : List Obs)
+    (hstep : ∀ s, m ≤ s.next → ∀ b ∈ bs, I s → I (f s b) ∧ Shape m (.report b e) (L b) s (f s b))
+    (hnd : bs.Nodup) (s : St) (hm : m ≤ s.next) (hI : I s) (b : Obs) :
+    I (bs.foldl f s) ∧ (s.next ≤ (bs.foldl f s).next ∧ ∃ t, (bs.foldl f s).trace = s.trace ++ t) ∧
+      recipients (.report b e) (newOf s (bs.foldl f s)) = if b ∈ bs then L b else [] := by
+  obtain ⟨h1, h2, h3⟩ := fold_reports_general m e hf f (fun _ b => L b) I bs hstep hnd s hm hI b
+  refine ⟨h1, h2, ?_⟩
+  split
+  · next h => simp only [h, if_true] at h3; obtain ⟨_, _, h⟩ := h3; exact h
+  · next h => simp only [h, if_false] at h3; exact h3
 
 /-- **Failures are reported to the other observers** (error publishers, i.e. every nesting level;
-    no assumption on what observers do): if observer `b` of a publisher with distinct observers `obs`
-    raised while handling `e`, the failure event `report b e` is delivered exactly to the observers
-    `obs` without `b`, once each, in order — and never to `b`. -/
-theorem failures_reported_to_others_nested (beh : Beh) (obs : List Obs) (e : Ev) (s : St) (hnd : obs.Nodup)
-    (b : Obs) (hb : b ∈ (deliverAll beh e obs s).2) :
-    recipients (.report b e) (newOf s (publishErr beh obs e s)) = obs.filter (· != b) := by
+    no assumption on what observers do — they may re-enter the publisher under test, publishing included):
+    if observer `b` of a publisher with distinct observers `obs` raised while handling `e`, the failure
+    event `report b e` is delivered exactly to the observers `obs` without `b`, once each, in order — and
+    never to `b`. -/
+theorem failures_reported_to_others_nested (pub : Reenter) (hp : ReOK pub) (beh : Beh) (obs : List Obs) (e : Ev)
+    (s : St) (hf : Fresh e s) (hnd : obs.Nodup)
+    (b : Obs) (hb : b ∈ (deliverAll pub beh e obs s).2) :
+    recipients (.report b e) (newOf s (publishErr pub beh obs e s)) = obs.filter (· != b) := by
   unfold publishErr
   cases hlen : obs.length with
   | zero =>
@@ -364,35 +658,32 @@ theorem failures_reported_to_others_nested (beh : Beh) (obs : List Obs) (e : Ev)
     subst this; simp [deliverAll] at hb
   | succ n =>
     rw [publishErrN_succ]
-    have hbs := deliverAll_broken_sublist beh e obs s
-    have := fold_reports e (fun s b => publishErrN beh n (obs.filter (· != b)) (.report b e) s)
-      (fun b => obs.filter (· != b)) (fun _ => True) (deliverAll beh e obs s).2
-      (fun s' b' hb' _ => ⟨trivial, publishErrN_shape beh n _ _ s' (by
+    have hbs := deliverAll_broken_sublist pub beh e obs s
+    obtain ⟨n1, T, hT, hv⟩ := deliverAll_shape pub hp beh s.next e hf obs s (Nat.le_refl _)
+    obtain ⟨_, ⟨_, t, ht⟩, hrec⟩ := fold_reports s.next e hf
+      (fun s b => publishErrN pub beh n (obs.filter (· != b)) (.report b e) s)
+      (fun b => obs.filter (· != b)) (fun _ => True) (deliverAll pub beh e obs s).2
+      (fun s' hs' b' hb' _ => ⟨trivial, publishErrN_shape pub hp beh s.next n _ _ s' (by rw [later_report]; exact hf) hs' (by
           have := filter_ne_length_lt obs b' (hbs.subset hb'); omega)⟩)
-      (hbs.nodup hnd) (deliverAll beh e obs s).1 trivial b
-    obtain ⟨_, ⟨t, ht⟩, hrec⟩ := this
+      (hbs.nodup hnd) (deliverAll pub beh e obs s).1 n1 trivial b
     simp only [hb, if_true] at hrec
-    have hnew : newOf s ((deliverAll beh e obs s).2.foldl
-        (fun s b => publishErrN beh n (obs.filter (· != b)) (.report b e) s) (deliverAll beh e obs s).1) =
-        obs.map (fun o => (o, e)) ++ newOf (deliverAll beh e obs s).1 ((deliverAll beh e obs s).2.foldl
-        (fun s b => publishErrN beh n (obs.filter (· != b)) (.report b e) s) (deliverAll beh e obs s).1) := by
-      rw [newOf_eq ht]
-      apply newOf_eq
-      rw [ht, deliverAll_trace]
-      simp [List.append_assoc]
-    rw [hnew, recipients_append, hrec, recipients_none]
-    · simp
-    · intro d hd
-      obtain ⟨o, _, rfl⟩ := List.mem_map.mp hd
-      intro h
-      have : depth e = depth (Ev.report b e) := by simp at h; rw [← h]
-      simp [depth] at this
+    rw [recipients_split _ hT ht, hrec, recipients_report_deliveries s.next e b hf obs T hv]
+    simp
 
+/-! ### what observers cannot break: invariants of the registration -/
 
-/-! ### observers that do not re-enter the publisher; which observers are "broken" -/
+/-- effect of one command on the registration, re-entrant publishes aside -/
+def cmdMain (l : List Obs) : Cmd → List Obs
+  | .remove o => removeObs l o
+  | .add o => addObs l o
+  | .publish => l
 
-/-- observers never call `addObserver`/`removeObserver` while being called -/
-def Quiet (beh : Beh) : Prop := ∀ o n ev, (beh o n ev).removes = [] ∧ (beh o n ev).adds = []
+/-- `P` survives every `addObserver`/`removeObserver` the observers perform -/
+def CmdsKeep (P : List Obs → Prop) (beh : Beh) : Prop :=
+  ∀ o n ev, ∀ c ∈ (beh o n ev).cmds, ∀ l, P l → P (cmdMain l c)
+
+/-- `P` survives a re-entrant publish -/
+def ReKeeps (P : List Obs → Prop) (pub : Reenter) : Prop := ∀ e s, P s.main → P (pub e s).main
 
 theorem foldl_inv {P : St → Prop} (f : St → Obs → St) (l : List Obs) (s : St)
     (h : ∀ s b, P s → P (f s b)) (hs : P s) : P (l.foldl f s) := by
@@ -400,43 +691,55 @@ theorem foldl_inv {P : St → Prop} (f : St → Obs → St) (l : List Obs) (s : 
   | nil => exact hs
   | cons b bs ih => exact ih _ (h s b hs)
 
-theorem callObs_inv {P : List Obs → Prop} (beh : Beh) (o : Obs) (e : Ev) (s : St)
-    (hadd : ∀ l o, P l → P (addObs l o)) (hrem : ∀ l o, P l → P (removeObs l o)) (hs : P s.main) :
-    P (callObs beh o e s).1.main := by
-  simp only [callObs]
-  generalize (beh o (calls o s.trace) e).adds = adds
-  generalize (beh o (calls o s.trace) e).removes = removes
-  have h1 : P (removes.foldl removeObs s.main) := by
-    induction removes generalizing s with
-    | nil => exact hs
-    | cons r rs ih => exact ih ⟨removeObs s.main r, s.trace⟩ (hrem _ _ hs)
-  generalize removes.foldl removeObs s.main = m at h1
-  induction adds generalizing m with
-  | nil => exact h1
-  | cons a as ih => exact ih _ (hadd _ _ h1)
+theorem runCmd_inv {P : List Obs → Prop} (pub : Reenter) (hpub : ReKeeps P pub) (s : St) (c : Cmd)
+    (hc : ∀ l, P l → P (cmdMain l c)) (hs : P s.main) : P (runCmd pub s c).main := by
+  cases c with
+  | remove o => exact hc _ hs
+  | add o => exact hc _ hs
+  | publish => exact hpub _ _ hs
 
-theorem deliverAll_inv {P : List Obs → Prop} (beh : Beh) (e : Ev) (os : List Obs) (s : St)
-    (hadd : ∀ l o, P l → P (addObs l o)) (hrem : ∀ l o, P l → P (removeObs l o)) (hs : P s.main) :
-    P (deliverAll beh e os s).1.main := by
+theorem callObs_inv {P : List Obs → Prop} (pub : Reenter) (hpub : ReKeeps P pub) (beh : Beh) (hc : CmdsKeep P beh)
+    (o : Obs) (e : Ev) (s : St) (hs : P s.main) : P (callObs pub beh o e s).1.main := by
+  simp only [callObs]
+  have key : ∀ (cmds : List Cmd) (s : St), (∀ c ∈ cmds, ∀ l, P l → P (cmdMain l c)) → P s.main →
+      P (cmds.foldl (runCmd pub) s).main := by
+    intro cmds
+    induction cmds with
+    | nil => intro s _ h; exact h
+    | cons c cs ih =>
+      intro s hcs h
+      simp only [List.foldl_cons]
+      exact ih _ (fun c' hc' => hcs c' (by simp [hc'])) (runCmd_inv pub hpub s c (hcs c (by simp)) h)
+  exact key _ _ (hc o _ e) hs
+
+theorem deliverAll_inv {P : List Obs → Prop} (pub : Reenter) (hpub : ReKeeps P pub) (beh : Beh) (hc : CmdsKeep P beh)
+    (e : Ev) (os : List Obs) (s : St) (hs : P s.main) : P (deliverAll pub beh e os s).1.main := by
   induction os generalizing s with
   | nil => exact hs
-  | cons o os ih => exact ih _ (callObs_inv beh o e s hadd hrem hs)
+  | cons o os ih => exact ih _ (callObs_inv pub hpub beh hc o e s hs)
 
-theorem publishErrN_inv {P : List Obs → Prop} (beh : Beh) (n : Nat) (obs : List Obs) (e : Ev) (s : St)
-    (hadd : ∀ l o, P l → P (addObs l o)) (hrem : ∀ l o, P l → P (removeObs l o)) (hs : P s.main) :
-    P (publishErrN beh n obs e s).main := by
+theorem publishErrN_inv {P : List Obs → Prop} (pub : Reenter) (hpub : ReKeeps P pub) (beh : Beh) (hc : CmdsKeep P beh)
+    (n : Nat) (obs : List Obs) (e : Ev) (s : St) (hs : P s.main) : P (publishErrN pub beh n obs e s).main := by
   induction n generalizing obs e s with
   | zero => exact hs
   | succ n ih =>
     rw [publishErrN_succ]
-    exact foldl_inv (P := fun s => P s.main) _ _ _ (fun s b h => ih _ _ _ h) (deliverAll_inv beh e obs s hadd hrem hs)
+    exact foldl_inv (P := fun s => P s.main) _ _ _ (fun s b h => ih _ _ _ h) (deliverAll_inv pub hpub beh hc e obs s hs)
 
-theorem publishMain_inv {P : List Obs → Prop} (beh : Beh) (e : Ev) (s : St)
-    (hadd : ∀ l o, P l → P (addObs l o)) (hrem : ∀ l o, P l → P (removeObs l o)) (hs : P s.main) :
-    P (publishMain beh e s).main := by
-  unfold publishMain reportMain
-  exact foldl_inv (P := fun s => P s.main) _ _ _ (fun s b h => publishErrN_inv beh _ _ _ s hadd hrem h)
-    (deliverAll_inv beh e s.main s hadd hrem hs)
+theorem publishWith_inv {P : List Obs → Prop} (pub : Reenter) (hpub : ReKeeps P pub) (beh : Beh) (hc : CmdsKeep P beh)
+    (e : Ev) (s : St) (hs : P s.main) : P (publishWith pub beh e s).main := by
+  unfold publishWith reportMain
+  exact foldl_inv (P := fun s => P s.main) _ _ _ (fun s b h => publishErrN_inv pub hpub beh hc _ _ _ s h)
+    (deliverAll_inv pub hpub beh hc e s.main s hs)
+
+theorem nested_keeps {P : List Obs → Prop} (beh : Beh) (hc : CmdsKeep P beh) (n : Nat) : ReKeeps P (nested beh n) := by
+  induction n with
+  | zero => intro e s h; exact h
+  | succ n ih => intro e s h; exact publishWith_inv (nested beh n) ih beh hc e s h
+
+theorem publishMain_inv {P : List Obs → Prop} (beh : Beh) (hc : CmdsKeep P beh) (fuel : Nat)
+    (e : Ev) (s : St) (hs : P s.main) : P (publishMain beh fuel e s).main :=
+  publishWith_inv (nested beh fuel) (nested_keeps beh hc fuel) beh hc e s hs
 
 theorem addObs_nodup (l : List Obs) (o : Obs) (h : l.Nodup) : (addObs l o).Nodup := by
   unfold addObs
@@ -446,11 +749,18 @@ theorem addObs_nodup (l : List Obs) (o : Obs) (h : l.Nodup) : (addObs l o).Nodup
 
 theorem removeObs_nodup (l : List Obs) (o : Obs) (h : l.Nodup) : (removeObs l o).Nodup := h.erase o
 
+theorem nodup_cmdsKeep (beh : Beh) : CmdsKeep List.Nodup beh := by
+  intro o n ev c _ l h
+  cases c with
+  | remove x => exact removeObs_nodup _ _ h
+  | add x => exact addObs_nodup _ _ h
+  | publish => exact h
+
 /-- **Registered observers stay distinct**: from a publisher built with distinct observers, no history
-    of `addObserver` / `removeObserver` / events — with observers re-entering the publisher at will —
-    registers an observer twice.  (So "exactly once" below is about every reachable state.) -/
-theorem registered_observers_stay_distinct (beh : Beh) (ops : List Op) (s : St) (h : s.main.Nodup) :
-    (run beh ops s).main.Nodup := by
+    of `addObserver` / `removeObserver` / events — with observers re-entering the publisher at will,
+    publishing included — registers an observer twice.  (So "exactly once" is about every reachable state.) -/
+theorem registered_observers_stay_distinct (beh : Beh) (fuel : Nat) (ops : List Op) (s : St) (h : s.main.Nodup) :
+    (run beh fuel ops s).main.Nodup := by
   unfold run
   induction ops generalizing s with
   | nil => exact h
@@ -460,155 +770,119 @@ theorem registered_observers_stay_distinct (beh : Beh) (ops : List Op) (s : St) 
     cases op with
     | add o => exact addObs_nodup _ _ h
     | remove o => exact removeObs_nodup _ _ h
-    | emit k => exact publishMain_inv (P := List.Nodup) beh _ s addObs_nodup removeObs_nodup h
+    | emit k => exact publishMain_inv (P := List.Nodup) beh (nodup_cmdsKeep beh) fuel _ s h
+
+
+/-! ### which observers are "broken"; observers that do not change the registration -/
+
+/-- observers never publish re-entrantly (they may add and remove observers): the behaviours of round 1 -/
+def NoPublish (beh : Beh) : Prop := ∀ o n ev, Cmd.publish ∉ (beh o n ev).cmds
+
+theorem callObs_trace_noPublish (pub : Reenter) (beh : Beh) (hq : NoPublish beh) (o : Obs) (e : Ev) (s : St) :
+    (callObs pub beh o e s).1.trace = s.trace ++ [(o, e)] := by
+  simp only [callObs]
+  have key : ∀ (cmds : List Cmd) (s : St), Cmd.publish ∉ cmds → (cmds.foldl (runCmd pub) s).trace = s.trace := by
+    intro cmds
+    induction cmds with
+    | nil => intro s _; rfl
+    | cons c cs ih =>
+      intro s h
+      simp only [List.foldl_cons]
+      rw [ih _ (fun hc => h (by simp [hc]))]
+      cases c with
+      | remove x => rfl
+      | add x => rfl
+      | publish => exact absurd (by simp) h
+  rw [key _ _ (hq o _ e)]
 
 theorem calls_append_other (o o' : Obs) (e : Ev) (tr : List (Obs × Ev)) (h : o' ≠ o) :
     calls o' (tr ++ [(o, e)]) = calls o' tr := by
   simp [calls, List.countP_append, Ne.symm h]
 
 /-- the broken observers of one call are exactly the registered observers whose behaviour for this
-    call is to raise, in registration order -/
-theorem broken_eq_raisers (beh : Beh) (e : Ev) (os : List Obs) (s : St) (hnd : os.Nodup) :
-    (deliverAll beh e os s).2 = os.filter (fun o => (beh o (calls o s.trace) e).raises) := by
+    call is to raise, in registration order (observers that do not publish re-entrantly: with re-entrant
+    publishes an observer can be called — and use up a behaviour — before its turn) -/
+theorem broken_eq_raisers (pub : Reenter) (beh : Beh) (hq : NoPublish beh) (e : Ev) (os : List Obs) (s : St)
+    (hnd : os.Nodup) :
+    (deliverAll pub beh e os s).2 = os.filter (fun o => (beh o (calls o s.trace) e).raises) := by
   induction os generalizing s with
   | nil => simp [deliverAll]
   | cons o os ih =>
     have ho : o ∉ os := (List.nodup_cons.mp hnd).1
     have hnd' := (List.nodup_cons.mp hnd).2
-    have htail : (deliverAll beh e os (callObs beh o e s).1).2 =
+    have htail : (deliverAll pub beh e os (callObs pub beh o e s).1).2 =
         os.filter (fun o => (beh o (calls o s.trace) e).raises) := by
       rw [ih _ hnd']
       apply List.filter_congr
       intro o' ho'
       have : o' ≠ o := fun h => ho (h ▸ ho')
-      rw [callObs_trace, calls_append_other o o' e s.trace this]
+      rw [callObs_trace_noPublish pub beh hq, calls_append_other o o' e s.trace this]
     simp only [deliverAll, List.filter_cons, htail]
     simp only [callObs]
     split <;> simp_all
 
+/-- observers never call `addObserver`/`removeObserver` while being called (they may publish re-entrantly) -/
+def Quiet (beh : Beh) : Prop := ∀ o n ev, ∀ c ∈ (beh o n ev).cmds, c = Cmd.publish
+
+theorem quiet_cmdsKeep (beh : Beh) (hq : Quiet beh) (L : List Obs) : CmdsKeep (· = L) beh := by
+  intro o n ev c hc l h
+  rw [hq o n ev c hc]; exact h
+
 /-- **Failures are reported to the other observers** (the publisher under test, observers that do not
-    re-enter it): if the registered observer `b` raised while handling `e`, every other registered
-    observer receives the failure event `report b e` exactly once, in registration order, and `b` does not. -/
-theorem failures_reported_to_others (beh : Beh) (hq : Quiet beh) (e : Ev) (s : St) (hnd : s.main.Nodup)
-    (b : Obs) (hb : b ∈ (deliverAll beh e s.main s).2) :
-    recipients (.report b e) (newOf s (publishMain beh e s)) = s.main.filter (· != b) := by
-  have hbs := deliverAll_broken_sublist beh e s.main s
-  -- quiet observers leave the registration unchanged
-  have hcall : ∀ (o : Obs) (e' : Ev) (s' : St), (callObs beh o e' s').1.main = s'.main := by
-    intro o e' s'; simp [callObs, (hq o _ e').1, (hq o _ e').2]
-  have hdel : ∀ (os : List Obs) (e' : Ev) (s' : St), (deliverAll beh e' os s').1.main = s'.main := by
-    intro os e'
-    induction os with
-    | nil => intro s'; rfl
-    | cons o os ih => intro s'; simp only [deliverAll]; rw [ih, hcall]
-  have hpub : ∀ (n : Nat) (obs : List Obs) (e' : Ev) (s' : St), (publishErrN beh n obs e' s').main = s'.main := by
-    intro n
-    induction n with
-    | zero => intro obs e' s'; rfl
-    | succ n ih =>
-      intro obs e' s'
-      rw [publishErrN_succ]
-      have := foldl_inv (P := fun x => x.main = s'.main)
-        (fun s b => publishErrN beh n (obs.filter (· != b)) (.report b e') s) (deliverAll beh e' obs s').2
-        (deliverAll beh e' obs s').1 (fun x b hx => by rw [ih]; exact hx) (hdel obs e' s')
-      exact this
-  unfold publishMain reportMain
-  have := fold_reports e (fun s b => publishErr beh (s.main.filter (· != b)) (.report b e) s)
-    (fun b => s.main.filter (· != b)) (fun x => x.main = s.main) (deliverAll beh e s.main s).2
-    (fun s' b' _ hI => ⟨by simp only [publishErr]; rw [hpub]; exact hI, by
-        simp only [hI]; exact publishErr_shape beh _ _ s'⟩)
-    (hbs.nodup hnd) (deliverAll beh e s.main s).1 (hdel _ _ _) b
-  obtain ⟨_, ⟨t, ht⟩, hrec⟩ := this
+    change the registration — they may raise and publish re-entrantly): if the registered observer `b`
+    raised while handling `e`, every other registered observer receives the failure event `report b e`
+    exactly once, in registration order, and `b` does not. -/
+theorem failures_reported_to_others (beh : Beh) (fuel : Nat) (hq : Quiet beh) (e : Ev) (s : St) (hf : Fresh e s)
+    (hnd : s.main.Nodup) (b : Obs) (hb : b ∈ (deliverAll (nested beh fuel) beh e s.main s).2) :
+    recipients (.report b e) (newOf s (publishMain beh fuel e s)) = s.main.filter (· != b) := by
+  have hp := nested_reOK beh fuel
+  have hc := quiet_cmdsKeep beh hq s.main
+  have hk := nested_keeps (P := (· = s.main)) beh hc fuel
+  have hbs := deliverAll_broken_sublist (nested beh fuel) beh e s.main s
+  unfold publishMain publishWith reportMain
+  obtain ⟨n1, T, hT, hv⟩ := deliverAll_shape (nested beh fuel) hp beh s.next e hf s.main s (Nat.le_refl _)
+  obtain ⟨_, ⟨_, t, ht⟩, hrec⟩ := fold_reports s.next e hf
+    (fun s b => publishErr (nested beh fuel) beh (s.main.filter (· != b)) (.report b e) s)
+    (fun b => s.main.filter (· != b)) (fun x => x.main = s.main) (deliverAll (nested beh fuel) beh e s.main s).2
+    (fun s' hs' b' _ hI => ⟨publishErrN_inv (P := (· = s.main)) (nested beh fuel) hk beh hc _ _ _ s' hI, by
+        have := publishErr_shape (nested beh fuel) hp beh s.next (s'.main.filter (· != b')) (.report b' e) s'
+          (by rw [later_report]; exact hf) hs'
+        simp only [hI] at this ⊢; exact this⟩)
+    (hbs.nodup hnd) (deliverAll (nested beh fuel) beh e s.main s).1 n1
+    (deliverAll_inv (P := (· = s.main)) (nested beh fuel) hk beh hc e s.main s rfl) b
   simp only [hb, if_true] at hrec
-  have hnew : newOf s ((deliverAll beh e s.main s).2.foldl
-      (fun s b => publishErr beh (s.main.filter (· != b)) (.report b e) s) (deliverAll beh e s.main s).1) =
-      s.main.map (fun o => (o, e)) ++ newOf (deliverAll beh e s.main s).1 ((deliverAll beh e s.main s).2.foldl
-      (fun s b => publishErr beh (s.main.filter (· != b)) (.report b e) s) (deliverAll beh e s.main s).1) := by
-    rw [newOf_eq ht]
-    apply newOf_eq
-    rw [ht, deliverAll_trace]
-    simp [List.append_assoc]
-  rw [hnew, recipients_append, hrec, recipients_none]
-  · simp
-  · intro d hd
-    obtain ⟨o, _, rfl⟩ := List.mem_map.mp hd
-    intro h
-    have : depth e = depth (Ev.report b e) := by simp at h; rw [← h]
-    simp [depth] at this
+  rw [recipients_split _ hT ht, hrec, recipients_report_deliveries s.next e b hf s.main T hv]
+  simp
 
-
-/-! ### failure reports when observers re-enter the publisher -/
-
-theorem fold_reports_general (e : Ev) (f : St → Obs → St) (L : St → Obs → List Obs) (I : St → Prop) (bs : List Obs)
-    (hstep : ∀ s, ∀ b ∈ bs, I s → I (f s b) ∧ ∃ t, (f s b).trace = s.trace ++ (L s b).map (fun o => (o, Ev.report b e)) ++ t ∧
-      ∀ d ∈ t, below (.report b e) d.2 = true)
-    (hnd : bs.Nodup) (s : St) (hI : I s) (b : Obs) :
-    I (bs.foldl f s) ∧ (∃ t, (bs.foldl f s).trace = s.trace ++ t) ∧
-      (if b ∈ bs then ∃ sb, I sb ∧ recipients (.report b e) (newOf s (bs.foldl f s)) = L sb b
-       else recipients (.report b e) (newOf s (bs.foldl f s)) = []) := by
-  induction bs generalizing s with
-  | nil => simp [newOf, recipients]; exact hI
-  | cons b' bs ih =>
-    simp only [List.foldl_cons]
-    obtain ⟨hI', t1, ht1, hp1⟩ := hstep s b' (by simp) hI
-    have hnd' : bs.Nodup := (List.nodup_cons.mp hnd).2
-    have hb'bs : b' ∉ bs := (List.nodup_cons.mp hnd).1
-    obtain ⟨hI2, ⟨t2, ht2⟩, hrec⟩ := ih (fun s b hb => hstep s b (by simp [hb])) hnd' (f s b') hI'
-    refine ⟨hI2, ⟨_, by rw [ht2, ht1, List.append_assoc, List.append_assoc]⟩, ?_⟩
-    have hnew : newOf s (bs.foldl f (f s b')) =
-        ((L s b').map (fun o => (o, Ev.report b' e)) ++ t1) ++ newOf (f s b') (bs.foldl f (f s b')) := by
-      rw [newOf_eq ht2]
-      apply newOf_eq
-      rw [ht2, ht1]
-      simp [List.append_assoc]
-    rw [hnew, recipients_append]
-    by_cases hbb : b' = b
-    · subst hbb
-      simp only [hb'bs, if_false] at hrec
-      rw [recipients_report_same _ _ hp1, hrec]
-      simp only [List.mem_cons, true_or, if_true, List.append_nil]
-      exact ⟨s, hI, rfl⟩
-    · rw [recipients_report_other _ _ hbb hp1]
-      have : (b ∈ b' :: bs) ↔ b ∈ bs := by simp [Ne.symm hbb]
-      simp only [this, List.nil_append]
-      exact hrec
+/-! ### failure reports when observers change the registration -/
 
 /-- **Failures are reported to the other observers** (the publisher under test, observers free to call
-    `addObserver`/`removeObserver` while being called): if the registered observer `b` raised while
-    handling `e`, the failure event `report b e` is delivered exactly to the observers registered at the
-    moment that failure is reported (state `sb`), without `b`: once each, in registration order, never to `b`. -/
-theorem failures_reported_to_others_reentrant (beh : Beh) (e : Ev) (s : St) (hnd : s.main.Nodup)
-    (b : Obs) (hb : b ∈ (deliverAll beh e s.main s).2) :
+    `addObserver`/`removeObserver` and to publish re-entrantly while being called): if the registered
+    observer `b` raised while handling `e`, the failure event `report b e` is delivered exactly to the
+    observers registered at the moment that failure is reported (state `sb`), without `b`: once each, in
+    registration order, never to `b`. -/
+theorem failures_reported_to_others_reentrant (beh : Beh) (fuel : Nat) (e : Ev) (s : St) (hf : Fresh e s)
+    (hnd : s.main.Nodup) (b : Obs) (hb : b ∈ (deliverAll (nested beh fuel) beh e s.main s).2) :
     ∃ sb : St, sb.main.Nodup ∧
-      recipients (.report b e) (newOf s (publishMain beh e s)) = sb.main.filter (· != b) := by
-  have hbs := deliverAll_broken_sublist beh e s.main s
-  unfold publishMain reportMain
-  have := fold_reports_general e (fun s b => publishErr beh (s.main.filter (· != b)) (.report b e) s)
-    (fun s b => s.main.filter (· != b)) (fun x => x.main.Nodup) (deliverAll beh e s.main s).2
-    (fun s' b' _ hI => ⟨publishErrN_inv (P := List.Nodup) beh _ _ _ s' addObs_nodup removeObs_nodup hI,
-        publishErr_shape beh _ _ s'⟩)
-    (hbs.nodup hnd) (deliverAll beh e s.main s).1
-    (deliverAll_inv (P := List.Nodup) beh e s.main s addObs_nodup removeObs_nodup hnd) b
-  obtain ⟨_, ⟨t, ht⟩, hrec⟩ := this
+      recipients (.report b e) (newOf s (publishMain beh fuel e s)) = sb.main.filter (· != b) := by
+  have hp := nested_reOK beh fuel
+  have hc := nodup_cmdsKeep beh
+  have hk := nested_keeps (P := List.Nodup) beh hc fuel
+  have hbs := deliverAll_broken_sublist (nested beh fuel) beh e s.main s
+  unfold publishMain publishWith reportMain
+  obtain ⟨n1, T, hT, hv⟩ := deliverAll_shape (nested beh fuel) hp beh s.next e hf s.main s (Nat.le_refl _)
+  obtain ⟨_, ⟨_, t, ht⟩, hrec⟩ := fold_reports_general s.next e hf
+    (fun s b => publishErr (nested beh fuel) beh (s.main.filter (· != b)) (.report b e) s)
+    (fun s b => s.main.filter (· != b)) (fun x => x.main.Nodup) (deliverAll (nested beh fuel) beh e s.main s).2
+    (fun s' hs' b' _ hI => ⟨publishErrN_inv (P := List.Nodup) (nested beh fuel) hk beh hc _ _ _ s' hI,
+        publishErr_shape (nested beh fuel) hp beh s.next _ (.report b' e) s' (by rw [later_report]; exact hf) hs'⟩)
+    (hbs.nodup hnd) (deliverAll (nested beh fuel) beh e s.main s).1 n1
+    (deliverAll_inv (P := List.Nodup) (nested beh fuel) hk beh hc e s.main s hnd) b
   simp only [hb, if_true] at hrec
   obtain ⟨sb, hsb, hrec⟩ := hrec
   refine ⟨sb, hsb, ?_⟩
-  have hnew : newOf s ((deliverAll beh e s.main s).2.foldl
-      (fun s b => publishErr beh (s.main.filter (· != b)) (.report b e) s) (deliverAll beh e s.main s).1) =
-      s.main.map (fun o => (o, e)) ++ newOf (deliverAll beh e s.main s).1 ((deliverAll beh e s.main s).2.foldl
-      (fun s b => publishErr beh (s.main.filter (· != b)) (.report b e) s) (deliverAll beh e s.main s).1) := by
-    rw [newOf_eq ht]
-    apply newOf_eq
-    rw [ht, deliverAll_trace]
-    simp [List.append_assoc]
-  rw [hnew, recipients_append, hrec, recipients_none]
-  · simp
-  · intro d hd
-    obtain ⟨o, _, rfl⟩ := List.mem_map.mp hd
-    intro h
-    have : depth e = depth (Ev.report b e) := by simp at h; rw [← h]
-    simp [depth] at this
-
+  rw [recipients_split _ hT ht, hrec, recipients_report_deliveries s.next e b hf s.main T hv]
+  simp
 
 /-! ### the error recursion terminates -/
 
@@ -623,8 +897,8 @@ theorem foldl_congr_mem (f g : St → Obs → St) (l : List Obs) (s : St) (h : 
 
 /-- the bound `n` of `publishErrN` is only a device: every bound that is at least the number of
     observers gives the same result, i.e. the recursion has bottomed out before the bound is used up -/
-theorem publishErrN_fuel_irrelevant (beh : Beh) (n m : Nat) : ∀ (obs : List Obs) (e : Ev) (s : St),
-    obs.length ≤ n → obs.length ≤ m → publishErrN beh n obs e s = publishErrN beh m obs e s := by
+theorem publishErrN_fuel_irrelevant (pub : Reenter) (beh : Beh) (n m : Nat) : ∀ (obs : List Obs) (e : Ev) (s : St),
+    obs.length ≤ n → obs.length ≤ m → publishErrN pub beh n obs e s = publishErrN pub beh m obs e s := by
   induction n generalizing m with
   | zero =>
     intro obs e s h _
@@ -642,27 +916,28 @@ theorem publishErrN_fuel_irrelevant (beh : Beh) (n m : Nat) : ∀ (obs : List Ob
       rw [publishErrN_succ, publishErrN_succ]
       apply foldl_congr_mem
       intro s' b hb
-      have := filter_ne_length_lt obs b (deliverAll_broken_mem beh e obs s b hb)
+      have := filter_ne_length_lt obs b (deliverAll_broken_mem pub beh e obs s b hb)
       exact ih m _ _ _ (by omega) (by omega)
 
 /-!
-The Python recursion itself, with no bound at all, as a big-step relation: `Pub obs e s s'` — calling a
-`LogPublisher` whose observers are `obs` with event `e` in state `s` returns, in state `s'`;
-`Rep obs e bs s s'` — its second loop over the remaining broken observers `bs`.  A derivation is a
-finite call tree, so `Pub … s s'` for some `s'` *is* termination of `LogPublisher.__call__`.
+The Python recursion of the error reporting itself, with no bound at all, as a big-step relation:
+`Pub obs e s s'` — calling a `LogPublisher` whose observers are `obs` with event `e` in state `s`
+returns, in state `s'`; `Rep obs e bs s s'` — its second loop over the remaining broken observers `bs`.
+A derivation is a finite call tree, so `Pub … s s'` for some `s'` *is* termination of
+`LogPublisher.__call__` (given that the observers' own calls — `pub` — return).
 -/
 mutual
-inductive Pub (beh : Beh) : List Obs → Ev → St → St → Prop
+inductive Pub (pub : Reenter) (beh : Beh) : List Obs → Ev → St → St → Prop
   | call (obs : List Obs) (e : Ev) (s s' : St) :
-      Rep beh obs e (deliverAll beh e obs s).2 (deliverAll beh e obs s).1 s' → Pub beh obs e s s'
-inductive Rep (beh : Beh) : List Obs → Ev → List Obs → St → St → Prop
-  | done (obs : List Obs) (e : Ev) (s : St) : Rep beh obs e [] s s
+      Rep pub beh obs e (deliverAll pub beh e obs s).2 (deliverAll pub beh e obs s).1 s' → Pub pub beh obs e s s'
+inductive Rep (pub : Reenter) (beh : Beh) : List Obs → Ev → List Obs → St → St → Prop
+  | done (obs : List Obs) (e : Ev) (s : St) : Rep pub beh obs e [] s s
   | next (obs : List Obs) (e : Ev) (b : Obs) (bs : List Obs) (s s1 s2 : St) :
-      Pub beh (obs.filter (· != b)) (.report b e) s s1 → Rep beh obs e bs s1 s2 → Rep beh obs e (b :: bs) s s2
+      Pub pub beh (obs.filter (· != b)) (.report b e) s s1 → Rep pub beh obs e bs s1 s2 → Rep pub beh obs e (b :: bs) s s2
 end
 
-theorem pub_of_publishErrN (beh : Beh) (n : Nat) : ∀ (obs : List Obs) (e : Ev) (s : St), obs.length ≤ n →
-    Pub beh obs e s (publishErrN beh n obs e s) := by
+theorem pub_of_publishErrN (pub : Reenter) (beh : Beh) (n : Nat) : ∀ (obs : List Obs) (e : Ev) (s : St), obs.length ≤ n →
+    Pub pub beh obs e s (publishErrN pub beh n obs e s) := by
   induction n with
   | zero =>
     intro obs e s h
@@ -674,7 +949,7 @@ theorem pub_of_publishErrN (beh : Beh) (n : Nat) : ∀ (obs : List Obs) (e : Ev)
     apply Pub.call
     rw [publishErrN_succ]
     have key : ∀ (bs : List Obs) (s1 : St), (∀ b ∈ bs, b ∈ obs) →
-        Rep beh obs e bs s1 (bs.foldl (fun s b => publishErrN beh n (obs.filter (· != b)) (.report b e) s) s1) := by
+        Rep pub beh obs e bs s1 (bs.foldl (fun s b => publishErrN pub beh n (obs.filter (· != b)) (.report b e) s) s1) := by
       intro bs
       induction bs with
       | nil => intro s1 _; exact Rep.done _ _ _
@@ -683,42 +958,215 @@ theorem pub_of_publishErrN (beh : Beh) (n : Nat) : ∀ (obs : List Obs) (e : Ev)
         simp only [List.foldl_cons]
         have := filter_ne_length_lt obs b (hmem b (by simp))
         exact Rep.next _ _ _ _ _ _ _ (ih _ _ s1 (by omega)) (ihb _ (fun b' hb' => hmem b' (by simp [hb'])))
-    exact key _ _ (fun b hb => deliverAll_broken_mem beh e obs s b hb)
+    exact key _ _ (fun b hb => deliverAll_broken_mem pub beh e obs s b hb)
 
 /-- **Error reporting terminates**: whatever the observers do — even if every observer raises on every
     event, failure reports included — a call of a publisher with observers `obs` returns (the call tree
     of the unbounded Python recursion is finite), and the state it returns in is the model's. -/
-theorem error_reporting_terminates (beh : Beh) (obs : List Obs) (e : Ev) (s : St) :
-    Pub beh obs e s (publishErr beh obs e s) :=
-  pub_of_publishErrN beh obs.length obs e s (Nat.le_refl _)
+theorem error_reporting_terminates (pub : Reenter) (beh : Beh) (obs : List Obs) (e : Ev) (s : St) :
+    Pub pub beh obs e s (publishErr pub beh obs e s) :=
+  pub_of_publishErrN pub beh obs.length obs e s (Nat.le_refl _)
+
+/-! ### the nesting bound is only a device -/
+
+/-- `overflow`, once set, stays set -/
+def Sticky (F : St → St) : Prop := ∀ s, s.overflow = true → (F s).overflow = true
+
+/-- `Good F F'`: whenever `F` finishes without having hit the nesting bound, `F'` does exactly the same -/
+def Good (F F' : St → St) : Prop := Sticky F ∧ ∀ s, (F s).overflow = false → F' s = F s
+
+theorem Good.comp {F F' G G' : St → St} (h1 : Good F F') (h2 : Good G G') :
+    Good (fun s => G (F s)) (fun s => G' (F' s)) := by
+  refine ⟨fun s h => h2.1 _ (h1.1 s h), fun s h => ?_⟩
+  have hF : (F s).overflow = false := by
+    cases hf : (F s).overflow with
+    | false => rfl
+    | true =>
+      have := h2.1 _ hf
+      simp only [this] at h
+      exact absurd h (by simp)
+  show G' (F' s) = G (F s)
+  rw [h1.2 s hF]
+  exact h2.2 _ h
+
+theorem Good.foldl {α : Type} (f f' : St → α → St) (l : List α)
+    (h : ∀ b ∈ l, Good (fun s => f s b) (fun s => f' s b)) :
+    Good (fun s => l.foldl f s) (fun s => l.foldl f' s) := by
+  induction l with
+  | nil => exact ⟨fun s h => h, fun s _ => rfl⟩
+  | cons b bs ih =>
+    simp only [List.foldl_cons]
+    exact Good.comp (h b (by simp)) (ih (fun b' hb' => h b' (by simp [hb'])))
+
+/-- the same for the observers' re-entrant `publisher(event)` -/
+def GoodRe (pub pub' : Reenter) : Prop := ∀ e, Good (pub e) (pub' e)
+
+theorem runCmd_good (pub pub' : Reenter) (hre : GoodRe pub pub') (c : Cmd) :
+    Good (fun s => runCmd pub s c) (fun s => runCmd pub' s c) := by
+  cases c with
+  | remove o => exact ⟨fun s h => h, fun s _ => rfl⟩
+  | add o => exact ⟨fun s h => h, fun s _ => rfl⟩
+  | publish =>
+    exact ⟨fun s h => (hre (.sub s.next)).1 { s with next := s.next + 1 } h,
+      fun s h => (hre (.sub s.next)).2 { s with next := s.next + 1 } h⟩
+
+theorem callObs_raises_eq (pub pub' : Reenter) (beh : Beh) (o : Obs) (e : Ev) (s : St) :
+    (callObs pub' beh o e s).2 = (callObs pub beh o e s).2 := rfl
+
+theorem callObs_good (pub pub' : Reenter) (hre : GoodRe pub pub') (beh : Beh) (o : Obs) (e : Ev) :
+    Good (fun s => (callObs pub beh o e s).1) (fun s => (callObs pub' beh o e s).1) := by
+  refine ⟨fun s h => ?_, fun s h => ?_⟩
+  · exact (Good.foldl _ _ (beh o (calls o s.trace) e).cmds (fun c _ => runCmd_good pub pub' hre c)).1
+      { s with trace := s.trace ++ [(o, e)] } h
+  · exact (Good.foldl _ _ (beh o (calls o s.trace) e).cmds (fun c _ => runCmd_good pub pub' hre c)).2
+      { s with trace := s.trace ++ [(o, e)] } h
+
+theorem deliverAll_sticky (pub pub' : Reenter) (hre : GoodRe pub pub') (beh : Beh) (e : Ev) (os : List Obs) :
+    Sticky (fun s => (deliverAll pub beh e os s).1) := by
+  induction os with
+  | nil => exact fun s h => h
+  | cons o os ih => exact fun s h => ih _ ((callObs_good pub pub' hre beh o e).1 s h)
+
+theorem deliverAll_agree (pub pub' : Reenter) (hre : GoodRe pub pub') (beh : Beh) (e : Ev) (os : List Obs) (s : St)
+    (h : (deliverAll pub beh e os s).1.overflow = false) : deliverAll pub' beh e os s = deliverAll pub beh e os s := by
+  induction os generalizing s with
+  | nil => rfl
+  | cons o os ih =>
+    simp only [deliverAll] at h ⊢
+    have h1 : (callObs pub beh o e s).1.overflow = false := by
+      cases hf : (callObs pub beh o e s).1.overflow with
+      | false => rfl
+      | true =>
+        have := deliverAll_sticky pub pub' hre beh e os _ hf
+        simp only [this] at h
+        exact absurd h (by simp)
+    have h2 : (callObs pub' beh o e s).1 = (callObs pub beh o e s).1 := (callObs_good pub pub' hre beh o e).2 s h1
+    rw [h2, ih _ h, callObs_raises_eq]
+
+theorem publishErrN_good (pub pub' : Reenter) (hre : GoodRe pub pub') (beh : Beh) (n : Nat) :
+    ∀ (obs : List Obs) (e : Ev), Good (publishErrN pub beh n obs e) (publishErrN pub' beh n obs e) := by
+  induction n with
+  | zero => intro obs e; exact ⟨fun s h => h, fun s _ => rfl⟩
+  | succ n ih =>
+    intro obs e
+    have hfold := fun (bs : List Obs) => Good.foldl
+      (fun s b => publishErrN pub beh n (obs.filter (· != b)) (.report b e) s)
+      (fun s b => publishErrN pub' beh n (obs.filter (· != b)) (.report b e) s) bs (fun b _ => ih _ _)
+    refine ⟨fun s h => ?_, fun s h => ?_⟩
+    · rw [publishErrN_succ]
+      exact (hfold _).1 _ (deliverAll_sticky pub pub' hre beh e obs s h)
+    · rw [publishErrN_succ] at h ⊢
+      rw [publishErrN_succ]
+      have h1 : (deliverAll pub beh e obs s).1.overflow = false := by
+        cases hf : (deliverAll pub beh e obs s).1.overflow with
+        | false => rfl
+        | true =>
+          have := (hfold (deliverAll pub beh e obs s).2).1 _ hf
+          simp only [this] at h
+          exact absurd h (by simp)
+      rw [deliverAll_agree pub pub' hre beh e obs s h1]
+      exact (hfold _).2 _ h
+
+theorem publishWith_good (pub pub' : Reenter) (hre : GoodRe pub pub') (beh : Beh) (e : Ev) :
+    Good (publishWith pub beh e) (publishWith pub' beh e) := by
+  have hfold := fun (bs : List Obs) => Good.foldl
+    (fun s b => publishErr pub beh (s.main.filter (· != b)) (.report b e) s)
+    (fun s b => publishErr pub' beh (s.main.filter (· != b)) (.report b e) s) bs
+    (fun b _ => ⟨fun s h => (publishErrN_good pub pub' hre beh _ _ _).1 s h,
+                 fun s h => (publishErrN_good pub pub' hre beh _ _ _).2 s h⟩)
+  refine ⟨fun s h => ?_, fun s h => ?_⟩
+  · unfold publishWith reportMain
+    exact (hfold _).1 _ (deliverAll_sticky pub pub' hre beh e s.main s h)
+  · unfold publishWith reportMain at h ⊢
+    have h1 : (deliverAll pub beh e s.main s).1.overflow = false := by
+      cases hf : (deliverAll pub beh e s.main s).1.overflow with
+      | false => rfl
+      | true =>
+        have := (hfold (deliverAll pub beh e s.main s).2).1 _ hf
+        simp only [this] at h
+        exact absurd h (by simp)
+    rw [deliverAll_agree pub pub' hre beh e s.main s h1]
+    exact (hfold _).2 _ h
+
+theorem nested_good (beh : Beh) (n : Nat) : ∀ m, n ≤ m → GoodRe (nested beh n) (nested beh m) := by
+  induction n with
+  | zero =>
+    intro m _ e
+    exact ⟨fun s _ => rfl, fun s h => by simp [nested] at h⟩
+  | succ n ih =>
+    intro m hm e
+    cases m with
+    | zero => omega
+    | succ m => exact publishWith_good (nested beh n) (nested beh m) (ih m (by omega)) beh e
+
+/-- **The nesting bound is only a device**: a call of the publisher that returns without having hit the
+    bound `n` on re-entrant publishes (`overflow` not set) is the same for every larger bound. -/
+theorem publishMain_fuel_irrelevant (beh : Beh) (n m : Nat) (hnm : n ≤ m) (e : Ev) (s : St)
+    (h : (publishMain beh n e s).overflow = false) : publishMain beh m e s = publishMain beh n e s :=
+  (publishWith_good (nested beh n) (nested beh m) (nested_good beh n m hnm) beh e).2 s h
+
+/-- the same for whole histories: a run that ends with `overflow` not set — which is what the driver
+    checks before it answers — does not depend on the bound -/
+theorem run_fuel_irrelevant (beh : Beh) (n m : Nat) (hnm : n ≤ m) (ops : List Op) (s : St)
+    (h : (run beh n ops s).overflow = false) : run beh m ops s = run beh n ops s := by
+  have hstep : ∀ op ∈ ops, Good (fun s => step beh n s op) (fun s => step beh m s op) := by
+    intro op _
+    cases op with
+    | add o => exact ⟨fun s h => h, fun s _ => rfl⟩
+    | remove o => exact ⟨fun s h => h, fun s _ => rfl⟩
+    | emit k => exact publishWith_good (nested beh n) (nested beh m) (nested_good beh n m hnm) beh (.app k)
+  exact (Good.foldl (step beh n) (step beh m) ops hstep).2 s h
+
+/-- a cut-off is never silent: once the bound has been hit, `overflow` stays set to the end of the run -/
+theorem overflow_sticky (beh : Beh) (n : Nat) (ops : List Op) (s : St) (h : s.overflow = true) :
+    (run beh n ops s).overflow = true := by
+  have hstep : ∀ op ∈ ops, Good (fun s => step beh n s op) (fun s => step beh n s op) := by
+    intro op _
+    cases op with
+    | add o => exact ⟨fun s h => h, fun s _ => rfl⟩
+    | remove o => exact ⟨fun s h => h, fun s _ => rfl⟩
+    | emit k => exact publishWith_good (nested beh n) (nested beh n) (nested_good beh n n (Nat.le_refl _)) beh (.app k)
+  exact (Good.foldl (step beh n) (step beh n) ops hstep).1 s h
 
 /-! ### histories -/
 
 def isApp : Ev → Bool
   | .app _ => true
-  | .report _ _ => false
+  | _ => false
 
-/-- the deliveries of application events (not failure reports) in a trace -/
+/-- the deliveries of application events (not failure reports, not events published by observers) in a trace -/
 def appOnly (tr : List (Obs × Ev)) : List (Obs × Ev) := tr.filter (fun d => isApp d.2)
 
 /-- what the property demands of a history: each emitted event goes, in registration order, to the
     observers registered at that moment -/
-def expected (beh : Beh) : List Op → St → List (Obs × Ev)
+def expected (beh : Beh) (fuel : Nat) : List Op → St → List (Obs × Ev)
   | [], _ => []
-  | .emit k :: ops, s => s.main.map (fun o => (o, Ev.app k)) ++ expected beh ops (step beh s (.emit k))
-  | .add o :: ops, s => expected beh ops (step beh s (.add o))
-  | .remove o :: ops, s => expected beh ops (step beh s (.remove o))
+  | .emit k :: ops, s => s.main.map (fun o => (o, Ev.app k)) ++ expected beh fuel ops (step beh fuel s (.emit k))
+  | .add o :: ops, s => expected beh fuel ops (step beh fuel s (.add o))
+  | .remove o :: ops, s => expected beh fuel ops (step beh fuel s (.remove o))
 
 theorem below_not_app {e d : Ev} (h : below e d = true) : isApp d = false := by
   cases d with
   | app k => simp [below] at h
+  | sub k => rfl
   | report b c => rfl
 
+theorem appOnly_vis (m : Nat) (t : List (Obs × Ev)) : appOnly t = appOnly (vis m t) := by
+  simp only [appOnly, vis, List.filter_filter]
+  apply List.filter_congr
+  intro d _
+  rcases d with ⟨o, ev⟩
+  cases ev with
+  | app k => simp [isApp, later_app]
+  | sub k => simp [isApp]
+  | report b c => simp [isApp]
+
 /-- **Histories**: over any sequence of `addObserver` / `removeObserver` / events and any observer
-    behaviour, the application events are delivered exactly as demanded — every event once to each
-    observer registered when it is emitted, in registration order, and to nobody else, ever. -/
-theorem history_every_event_once_in_order (beh : Beh) (ops : List Op) (s : St) :
-    appOnly (run beh ops s).trace = appOnly s.trace ++ expected beh ops s := by
+    behaviour (re-entrant publishing included), the application events are delivered exactly as demanded —
+    every event once to each observer registered when it is emitted, in registration order, and to nobody
+    else, ever. -/
+theorem history_every_event_once_in_order (beh : Beh) (fuel : Nat) (ops : List Op) (s : St) :
+    appOnly (run beh fuel ops s).trace = appOnly s.trace ++ expected beh fuel ops s := by
   unfold run
   induction ops generalizing s with
   | nil => simp [expected]
@@ -729,19 +1177,24 @@ theorem history_every_event_once_in_order (beh : Beh) (ops : List Op) (s : St) :
     | add o => simp [expected, step]
     | remove o => simp [expected, step]
     | emit k =>
-      obtain ⟨t, ht, hp⟩ := publishMain_shape beh (.app k) s
-      have ht0 : appOnly t = [] := by
+      obtain ⟨_, T, hT, tail, hv, hb⟩ := publishWith_shape (nested beh fuel) (nested_reOK beh fuel) beh s.next (.app k) s
+        rfl (Nat.le_refl _)
+      have ht0 : appOnly tail = [] := by
         simp only [appOnly, List.filter_eq_nil_iff]
-        intro d hd; simp [below_not_app (hp d hd)]
+        intro d hd; simp [below_not_app (hb d hd)]
       have hm : appOnly (s.main.map fun o => (o, Ev.app k)) = s.main.map fun o => (o, Ev.app k) := by
         simp only [appOnly, List.filter_eq_self]
         intro d hd
         obtain ⟨o, _, rfl⟩ := List.mem_map.mp hd
         rfl
-      simp only [expected, step]
-      rw [ht]
-      simp only [appOnly, List.filter_append] at ht0 hm ⊢
-      rw [ht0, hm]
+      have hT' : appOnly T = s.main.map fun o => (o, Ev.app k) := by
+        rw [appOnly_vis s.next T, hv]
+        simp only [appOnly, List.filter_append] at ht0 hm ⊢
+        rw [ht0, hm]; simp
+      simp only [expected, step, publishMain]
+      rw [hT]
+      simp only [appOnly, List.filter_append] at hT' ⊢
+      rw [hT']
       simp
 
 /-! ### non-vacuity, and the code before the repair -/
@@ -749,37 +1202,70 @@ theorem history_every_event_once_in_order (beh : Beh) (ops : List Op) (s : St) :
 /-- three observers, 0 and 2 raise on their first call -/
 def demoBeh : Beh := fun o n _ => if (o = 0 ∨ o = 2) ∧ n = 0 then { raises := true } else {}
 
-example : (publishMain demoBeh (.app 7) ⟨[0, 1, 2], []⟩).trace =
+example : (publishMain demoBeh 3 (.app 7) { main := [0, 1, 2], trace := [] }).trace =
     [(0, .app 7), (1, .app 7), (2, .app 7),
      (1, .report 0 (.app 7)), (2, .report 0 (.app 7)),
      (0, .report 2 (.app 7)), (1, .report 2 (.app 7))] := by decide
 
-example : recipients (.app 7) ((publishMain demoBeh (.app 7) ⟨[0, 1, 2], []⟩).trace.drop 0) = [0, 1, 2] :=
-  every_observer_gets_every_event_once_in_order demoBeh (.app 7) ⟨[0, 1, 2], []⟩
+example : recipients (.app 7) ((publishMain demoBeh 3 (.app 7) { main := [0, 1, 2], trace := [] }).trace.drop 0) = [0, 1, 2] :=
+  every_observer_gets_every_event_once_in_order demoBeh 3 (.app 7) { main := [0, 1, 2], trace := [] } rfl
 
-example : (0 : Obs) ∈ (deliverAll demoBeh (.app 7) [0, 1, 2] ⟨[0, 1, 2], []⟩).2 := by decide
+example : (0 : Obs) ∈ (deliverAll (nested demoBeh 3) demoBeh (.app 7) [0, 1, 2] { main := [0, 1, 2], trace := [] }).2 := by decide
 example : Quiet demoBeh := by intro o n ev; unfold demoBeh; split <;> simp
+example : NoPublish demoBeh := by intro o n ev; unfold demoBeh; split <;> simp
 
 /-- every observer raises on everything: the recursion still ends (3 + 3·2 + 3·2·1 deliveries) -/
-example : (publishMain (fun _ _ _ => { raises := true }) (.app 0) ⟨[0, 1, 2], []⟩).trace.length = 15 := by decide
+example : (publishMain (fun _ _ _ => { raises := true }) 0 (.app 0) { main := [0, 1, 2], trace := [] }).trace.length = 15 := by decide
 
 /-- observer 0 removes itself while being called (a one-shot observer) -/
-def oneShot : Beh := fun o n _ => if o = 0 ∧ n = 0 then { removes := [0] } else {}
+def oneShot : Beh := fun o n _ => if o = 0 ∧ n = 0 then { cmds := [.remove 0] } else {}
 
 /-- the repaired code: observer 1 still gets the event -/
-example : (publishMain oneShot (.app 0) ⟨[0, 1], []⟩).trace = [(0, .app 0), (1, .app 0)] := by decide
+example : (publishMain oneShot 1 (.app 0) { main := [0, 1], trace := [] }).trace = [(0, .app 0), (1, .app 0)] := by decide
 
 /-- observer 0, on its first call, removes observer 1, adds observer 2, and raises -/
-def reentrant : Beh := fun o n _ => if o = 0 ∧ n = 0 then { removes := [1], adds := [2], raises := true } else {}
+def reentrant : Beh := fun o n _ =>
+  if o = 0 ∧ n = 0 then { cmds := [.remove 1, .add 2], raises := true } else {}
 
 /-- observer 1 still gets the event (snapshot); the failure goes to whoever is registered then: observer 2 -/
-example : (publishMain reentrant (.app 0) ⟨[0, 1], []⟩).trace =
+example : (publishMain reentrant 1 (.app 0) { main := [0, 1], trace := [] }).trace =
     [(0, .app 0), (1, .app 0), (2, .report 0 (.app 0))] := by decide
+
+/-- observers first(0), chatty(1), oneShot(2), last(3): chatty publishes another event through the
+    publisher when it sees the outer event; oneShot unregisters itself when it sees the outer event —
+    i.e. after chatty's nested publish has returned, while the outer event is still being handed round -/
+def chattyOneShot : Beh := fun o _ ev =>
+  if o = 1 ∧ ev = .app 0 then { cmds := [.publish] }
+  else if o = 2 ∧ ev = .app 0 then { cmds := [.remove 2] } else {}
+
+/-- the nested event goes to all four in order, in the middle of the outer delivery; the outer event still
+    reaches `last` after the one-shot observer has gone -/
+example : (publishMain chattyOneShot 1 (.app 0) { main := [0, 1, 2, 3], trace := [] }).trace =
+    [(0, .app 0), (1, .app 0), (0, .sub 0), (1, .sub 0), (2, .sub 0), (3, .sub 0), (2, .app 0), (3, .app 0)] := by decide
+
+example : (publishMain chattyOneShot 1 (.app 0) { main := [0, 1, 2, 3], trace := [] }).main = [0, 1, 3] := by decide
+example : (publishMain chattyOneShot 1 (.app 0) { main := [0, 1, 2, 3], trace := [] }).overflow = false := by decide
+
+/-- … so the same happens for every larger bound on the re-entrancy depth -/
+example (m : Nat) (h : 1 ≤ m) : (publishMain chattyOneShot m (.app 0) { main := [0, 1, 2, 3], trace := [] }).main = [0, 1, 3] := by
+  rw [publishMain_fuel_irrelevant chattyOneShot 1 m h _ _ (by decide)]; decide
+
+/-- publishing, then unregistering itself, then raising — and the observer after it publishes from the
+    failure report it receives -/
+def busy : Beh := fun o n ev =>
+  if o = 0 ∧ n = 0 then { cmds := [.publish, .remove 0], raises := true }
+  else if o = 1 ∧ ev = .report 0 (.app 0) then { cmds := [.publish, .add 0] } else {}
+
+example : (publishMain busy 2 (.app 0) { main := [0, 1], trace := [] }).trace =
+    [(0, .app 0), (0, .sub 0), (1, .sub 0), (1, .app 0), (1, .report 0 (.app 0)), (1, .sub 1)] := by decide
+
+example : recipients (.app 0) ((publishMain busy 2 (.app 0) { main := [0, 1], trace := [] }).trace.drop 0) = [0, 1] :=
+  every_observer_gets_every_event_once_in_order busy 2 (.app 0) { main := [0, 1], trace := [] } rfl
 
 /-- **The code before the repair** (`for observer in self._observers` over the live list) violated the
     property: the observer registered after a self-removing observer never received the event. -/
 theorem live_iteration_counterexample :
-    recipients (.app 0) ((publishMainLive oneShot 100 (.app 0) ⟨[0, 1], []⟩).trace.drop 0) ≠ [0, 1] := by decide
+    recipients (.app 0) ((publishMainLive oneShot 100 (.app 0) { main := [0, 1], trace := [] }).trace.drop 0) ≠ [0, 1] := by decide
 
 end Publisher
 
